@@ -718,6 +718,7 @@ Proof. first [ exact C01.C01_judge_bridge_partial | intros; eapply C01.C01_judge
 Theorem C01_judge_bridge_request b jin m rest m' meth u ver a :
   j_read b = Some jin -> in_domain_C01 jin = true -> parse_message b = Ok (m, rest) ->
   j_is_response jin = false -> fields (jm_start jin) = [meth; u; ver] ->
+  fields_go (jm_start jin) = fields (jm_start jin) ->
   wf_addr a = true -> u = rp_addr a ->
   view m' = view m -> line_safe m' ->
   exists jo, j_read (write_message m') = Some jo /\ judge_C01_pair jin jo = 0%nat.
@@ -725,6 +726,7 @@ Proof. first [ exact C01.C01_judge_bridge_request | intros; eapply C01.C01_judge
 Theorem C01_judge_bridge_response b jin m rest m' ver c r1 rs code :
   j_read b = Some jin -> in_domain_C01 jin = true -> parse_message b = Ok (m, rest) ->
   j_is_response jin = true -> fields (jm_start jin) = ver :: c :: r1 :: rs ->
+  fields_go (jm_start jin) = fields (jm_start jin) ->
   atoi c = Some code -> itoa code = c ->
   view m' = view m -> line_safe m' ->
   exists jo, j_read (write_message m') = Some jo /\ judge_C01_pair jin jo = 0%nat.
@@ -1238,749 +1240,6 @@ Theorem C04_key_neq_dialog : forall meth branch d,
 Proof. first [ exact C04.key_neq_dialog | intros; eapply C04.key_neq_dialog; eassumption ]. Qed.
 End P_C04.
 
-(* ------------------------------------------------------------------ C07 *)
-From Model Require Import Bytes Wire Uri Hdr Message Msg StaticRoute RoundRobin Pins Proxy RunProxy SpecC14 SpecProxy SpecProxy2.
-From Model.proofs Require C07 C07_bridge.
-Section P_C07.
-Import C07 C07_bridge.
-Theorem C07_stamp : forall peer port m pre h post v rest,
-  m_headers m = pre ++ h :: post -> nomatch VIA pre -> same_header (h_name h) VIA = true ->
-  hval_vias (h_val h) = Some (v :: rest) ->
-  s_set_received peer port m =
-    ({| m_start := m_start m;
-        m_headers := pre ++ {| h_name := h_name h; h_val := HVia (stamp peer port v :: rest) |} :: post;
-        m_body := m_body m |}, Ok tt).
-Proof. first [ exact C07.C07_stamp | intros; eapply C07.C07_stamp; eassumption ]. Qed.
-Theorem C07_stamp_params : forall peer port v,
-  v_params (stamp peer port v) =
-    (if kv_has (s2b "rport") (kv_set (s2b "received") peer (v_params v))
-     then kv_set (s2b "rport") (itoa port) (kv_set (s2b "received") peer (v_params v))
-     else kv_set (s2b "received") peer (v_params v)) /\
-  v_name (stamp peer port v) = v_name v /\ v_version (stamp peer port v) = v_version v /\
-  v_transport (stamp peer port v) = v_transport v /\ v_host (stamp peer port v) = v_host v /\
-  v_port (stamp peer port v) = v_port v.
-Proof. first [ exact C07.C07_stamp_params | intros; eapply C07.C07_stamp_params; eassumption ]. Qed.
-Theorem C07_kv_set_char : forall k v l,
-  kv_get k (kv_set k v l) = Some v /\
-  (forall k', k' <> k -> kv_get k' (kv_set k v l) = kv_get k' l) /\
-  filter (fun p => negb (beq (k_key p) k)) (kv_set k v l) = filter (fun p => negb (beq (k_key p) k)) l /\
-  (kv_has k l = true -> exists a p b, l = a ++ p :: b /\ k_key p = k /\ kv_get k a = None /\
-                                      kv_set k v l = a ++ {| k_key := k_key p; k_val := v |} :: b) /\
-  (kv_has k l = false -> kv_set k v l = l ++ [{| k_key := k; k_val := v |}]).
-Proof. first [ exact C07.C07_kv_set_char | intros; eapply C07.C07_kv_set_char; eassumption ]. Qed.
-Theorem C07_pipeline : forall e peer port from rs tcp m0 x x',
-  is_request m0 = true ->
-  process_message e peer port from rs tcp m0 x = Ok x' ->
-  exists outs, x_outs x' = x_outs x ++ outs /\
-               Forall (relayed_as (e_branch e) (stamp_hdrs rs peer port (via_hdrs m0))) outs.
-Proof. first [ exact C07.C07_pipeline | intros; eapply C07.C07_pipeline; eassumption ]. Qed.
-Theorem C07_wiring : forall lc,
-  item_rs_of true lc = negb (lc_no_received lc) /\
-  pa_received_support (wire_proxy lc) = negb (lc_no_received lc).
-Proof. first [ exact C07.C07_wiring | intros; eapply C07.C07_wiring; eassumption ]. Qed.
-Theorem C07_wiring_legacy : forall lc, item_rs_of false lc = lc_def_route lc.
-Proof. first [ exact C07.C07_wiring_legacy | intros; eapply C07.C07_wiring_legacy; eassumption ]. Qed.
-Theorem C07_wired_reachable : forall fx c st, fx_wiring fx = true -> reachable fx c st -> wired c (st_conns st).
-Proof. first [ exact C07.C07_wired_reachable | intros; eapply C07.C07_wired_reachable; eassumption ]. Qed.
-Theorem C07_step_udp : forall fx c now br st li src sport data lc m rest st' outs,
-  nth_opt (c_listens c) li = Some lc -> parse_message data = Ok (m, rest) -> is_request m = true ->
-  proxy_step fx c now br st (EvUdp li src sport data) = Ok (st', outs) ->
-  Forall (relayed_as br (stamp_hdrs (item_rs_of (fx_wiring fx) lc) src sport (via_hdrs m))) outs.
-Proof. first [ exact C07.C07_step_udp | intros; eapply C07.C07_step_udp; eassumption ]. Qed.
-Theorem C07_step_tcp : forall fx c now br st cid data cn lc st' outs,
-  find (fun x => Nat.eqb (cn_id x) cid) (st_conns st) = Some cn ->
-  nth_opt (c_listens c) (cn_li cn) = Some lc ->
-  proxy_step fx c now br st (EvTcpData cid data) = Ok (st', outs) ->
-  exists oss, outs = List.concat oss /\
-    Forall2 (fun m os => is_request m = true ->
-               Forall (relayed_as br (stamp_hdrs (cn_received_support cn) (cn_peer cn) (cn_peer_port cn) (via_hdrs m))) os)
-            (firstn (List.length oss) (parse_stream (S (List.length data)) data)) oss.
-Proof. first [ exact C07.C07_step_tcp | intros; eapply C07.C07_step_tcp; eassumption ]. Qed.
-Theorem C07_judge_bridge_udp :
-  forall (pc : proxy_case) (st : jstate) (fx : fixes) (now : Z) (br : bytes) (li : nat) (lc : listen_cfg)
-         (src : bytes) (sport : Z) (data : bytes) (jin : jmsg) (m : message) (rest : bytes)
-         (x x' : ctx) (pre : list output) (keep : output -> bool) (closed : list nat),
-  let c := pc_cfg pc in
-  let e := mk_env fx c (item_rs_of (fx_wiring fx)) li lc now br in
-  fx_wiring fx = true ->
-  nth_opt (c_listens c) li = Some lc ->
-  j_read data = Some jin -> parse_message data = Ok (m, rest) ->
-  via_domain m ->
-  src_ok src -> branch_ok br ->
-  safe1 (lc_addr lc) = true -> 0 <= lc_udp lc <= 65535 -> 0 <= lc_tcp lc <= 65535 ->
-  (forall h t, alookup h (x_learned x) = Some t -> safe1 (t_addr t) = true /\ 0 <= t_port t <= 65535) ->
-  process_message e src sport {| t_kind := KUdp; t_addr := lc_addr lc; t_port := lc_udp lc |}
-                  (e_item_rs e) None m x = Ok x' ->
-  x_outs x' = x_outs x ++ pre ->
-  judge_C07_event pc st (EvUdp li src sport data) (map lab (filter keep pre)) closed = O.
-Proof. first [ exact C07_bridge.C07_judge_bridge_udp | intros; eapply C07_bridge.C07_judge_bridge_udp; eassumption ]. Qed.
-Theorem C07_judge_bridge_step :
-  forall (pc : proxy_case) (stj : jstate) (fx : fixes) (now : Z) (br : bytes) (st : state) (li : nat)
-         (lc : listen_cfg) (src : bytes) (sport : Z) (data : bytes) (jin : jmsg) (m : message) (rest : bytes)
-         (st' : state) (outs : list output) (keep : output -> bool) (closed : list nat),
-  fx_wiring fx = true -> nth_opt (c_listens (pc_cfg pc)) li = Some lc ->
-  j_read data = Some jin -> parse_message data = Ok (m, rest) ->
-  via_domain m -> src_ok src -> branch_ok br ->
-  safe1 (lc_addr lc) = true -> 0 <= lc_udp lc <= 65535 -> 0 <= lc_tcp lc <= 65535 ->
-  (forall h t, alookup h (st_learned st) = Some t -> safe1 (t_addr t) = true /\ 0 <= t_port t <= 65535) ->
-  proxy_step fx (pc_cfg pc) now br st (EvUdp li src sport data) = Ok (st', outs) ->
-  judge_C07_event pc stj (EvUdp li src sport data) (map lab (filter keep outs)) closed = O.
-Proof. first [ exact C07_bridge.C07_judge_bridge_step | intros; eapply C07_bridge.C07_judge_bridge_step; eassumption ]. Qed.
-End P_C07.
-
-(* ------------------------------------------------------------------ C13 *)
-From Model Require Import Bytes Wire Uri Hdr Message Msg StaticRoute RoundRobin Pins Proxy RunProxy SpecC14 SpecProxy SpecProxy2.
-From Model.proofs Require C06 C13 C13_bridge.
-Section P_C13.
-Import C06 C13 C13_bridge.
-Theorem C13_route_headers : forall e peer peer_port from rs tcp m0 x x',
-  is_request m0 = true ->
-  process_message e peer peer_port from rs tcp m0 x = Ok x' ->
-  exists extra, x_outs x' = x_outs x ++ extra /\ (msg_count extra <= 1)%nat /\
-    forall o, In o extra -> is_msg o = true ->
-      exists mo, snd o = write_message mo /\
-                 routed (fun hs => step_next (c_keep_next_hop (e_cfg e)) (step_own (e_cfg e) from hs)) m0 mo.
-Proof. first [ exact C13_bridge.C13_route_headers | intros; eapply C13_bridge.C13_route_headers; eassumption ]. Qed.
-Theorem C13_judge_bridge_udp :
-  forall pc st li lc src sport data closed jin m rest e rs x x',
-  nth_opt (c_listens (pc_cfg pc)) li = Some lc -> e_cfg e = pc_cfg pc -> e_lc e = lc ->
-  j_read data = Some jin -> parse_message data = Ok (m, rest) ->
-  is_request m = true ->
-  route_domain_in (RS m) ->
-  B7.via_domain m -> B7.src_ok src -> B7.branch_ok (e_branch e) ->
-  safe1 (lc_addr lc) = true -> (0 <= lc_udp lc <= 65535)%Z -> (0 <= lc_tcp lc <= 65535)%Z ->
-  (forall h t, alookup h (x_learned x) = Some t -> safe1 (t_addr t) = true /\ (0 <= t_port t <= 65535)%Z) ->
-  process_message e src sport (udp_transport lc) rs None m x = Ok x' ->
-  exists pre, x_outs x' = x_outs x ++ pre /\ (msg_count pre <= 1)%nat /\
-    forall vis, judge_C13_event pc st (EvUdp li src sport data) (map labelled (filter vis pre)) closed = 0%nat.
-Proof. first [ exact C13_bridge.C13_judge_bridge_udp | intros; eapply C13_bridge.C13_judge_bridge_udp; eassumption ]. Qed.
-Theorem C13_judge_bridge_step :
-  forall pc stj fx now br st st' outs li lc src sport data closed jin m rest,
-  nth_opt (c_listens (pc_cfg pc)) li = Some lc ->
-  j_read data = Some jin -> parse_message data = Ok (m, rest) ->
-  is_request m = true ->
-  route_domain_in (RS m) ->
-  B7.via_domain m -> B7.src_ok src -> B7.branch_ok br ->
-  safe1 (lc_addr lc) = true -> (0 <= lc_udp lc <= 65535)%Z -> (0 <= lc_tcp lc <= 65535)%Z ->
-  (forall h t, alookup h (st_learned st) = Some t -> safe1 (t_addr t) = true /\ (0 <= t_port t <= 65535)%Z) ->
-  proxy_step fx (pc_cfg pc) now br st (EvUdp li src sport data) = Ok (st', outs) ->
-  forall vis, judge_C13_event pc stj (EvUdp li src sport data) (map labelled (filter vis outs)) closed = 0%nat.
-Proof. first [ exact C13_bridge.C13_judge_bridge_step | intros; eapply C13_bridge.C13_judge_bridge_step; eassumption ]. Qed.
-Theorem C13_own_popped_iff : forall c from m,
-  route_view (fst (mtry (try_remove_top_route c from) m)) =
-  match route_view m with
-  | EDec e1 :: rest => if designates c from e1 then rest else route_view m
-  | _ => route_view m
-  end.
-Proof. first [ exact C13.try_remove_top_route_pops_iff_own | intros; eapply C13.try_remove_top_route_pops_iff_own; eassumption ]. Qed.
-Theorem C13_next_hop_popped_iff_not_keep : forall keep m,
-  match route_view m with
-  | EDec rp :: rest =>
-      route_view (fst (next_hop_by_route keep m)) = (if keep then EDec rp :: rest else rest) /\
-      snd (next_hop_by_route keep m) =
-        match na_addr (r_addr rp) with
-        | ASip u => Ok (u_host u, sip_uri_get_port u, sip_uri_transport u)
-        | AAbs _ => Err
-        end
-  | _ => route_view (fst (next_hop_by_route keep m)) = route_view m /\ is_ok (snd (next_hop_by_route keep m)) = false
-  end.
-Proof. first [ exact C13.next_hop_by_route_pops_iff_not_keep | intros; eapply C13.next_hop_by_route_pops_iff_not_keep; eassumption ]. Qed.
-Theorem C13_route : forall e peer peer_port from rs tcp m0 x x',
-  is_request m0 = true ->
-  process_message e peer peer_port from rs tcp m0 x = Ok x' ->
-  exists extra, x_outs x' = x_outs x ++ extra /\ (msg_count extra <= 1)%nat /\
-    forall o, In o extra -> is_msg o = true ->
-      exists mo, snd o = write_message mo /\
-                 route_view mo = skipn (route_consumed (e_cfg e) from (c_keep_next_hop (e_cfg e)) (route_view m0))
-                                       (route_view m0).
-Proof. first [ exact C13.C13_route | intros; eapply C13.C13_route; eassumption ]. Qed.
-Theorem C13_route_decoded : forall e peer peer_port from rs tcp m0 x x' entries,
-  is_request m0 = true ->
-  route_view m0 = map EDec entries ->
-  process_message e peer peer_port from rs tcp m0 x = Ok x' ->
-  let own := own_of (e_cfg e) from entries in
-  let remaining := if own then tl entries else entries in
-  let k := ((if own then 1 else 0) +
-            (match remaining with _ :: _ => if c_keep_next_hop (e_cfg e) then 0 else 1 | [] => 0 end))%nat in
-  exists extra, x_outs x' = x_outs x ++ extra /\ (msg_count extra <= 1)%nat /\
-    forall o, In o extra -> is_msg o = true ->
-      exists mo, snd o = write_message mo /\ route_view mo = map EDec (skipn k entries).
-Proof. first [ exact C13.C13_route_decoded | intros; eapply C13.C13_route_decoded; eassumption ]. Qed.
-Theorem C13_route_view_grammar : forall l, l <> [] -> forallb wf_relem l = true ->
-  hval_entries (HRaw (rp_route l)) = map EDec (map C14_hdr.embed_relem l).
-Proof. first [ exact C13.route_view_grammar | intros; eapply C13.route_view_grammar; eassumption ]. Qed.
-Theorem C13_route_header_text : forall l, forallb wf_relem l = true ->
-  hval_print (HRoute (map C14_hdr.embed_relem l)) = rp_route l.
-Proof. first [ exact C13.route_header_text | intros; eapply C13.route_header_text; eassumption ]. Qed.
-Theorem C13_keep_setting_decides : forall setting env, setting <> [] ->
-  to_keep_next_hop_route setting env = truthy setting.
-Proof. first [ exact C13.C13_keep_setting_decides | intros; eapply C13.C13_keep_setting_decides; eassumption ]. Qed.
-Theorem C13_keep_env_default : forall env, to_keep_next_hop_route [] env = truthy env.
-Proof. first [ exact C13.C13_keep_env_default | intros; eapply C13.C13_keep_env_default; eassumption ]. Qed.
-End P_C13.
-
-(* ------------------------------------------------------------------ C02 *)
-From Model Require Import Bytes Wire Uri Hdr Message Msg StaticRoute RoundRobin Pins Proxy RunProxy SpecC14 SpecProxy SpecProxy2.
-From Model.proofs Require C06 C13_bridge C07_bridge C07 C02 C02_bridge.
-Section P_C02.
-Import C06 C13_bridge C07_bridge C07 C02 C02_bridge.
-Theorem C02_judge_bridge_core :
-  forall (pc : proxy_case) (stj : jstate) (fx : fixes) (now : Z) (br : bytes) (st : state) (li : nat)
-         (lc : listen_cfg) (src : bytes) (sport : Z) (data : bytes) (jin : jmsg) (m : message) (rest : bytes)
-         (p : pstate) (st' : state) (outs : list output) (vis : output -> bool) (closed : list nat),
-  nth_opt (c_listens (pc_cfg pc)) li = Some lc -> nth_p (st_proxies st) li = Some p ->
-  j_read data = Some jin -> parse_message data = Ok (m, rest) ->
-  via_domain m ->
-  proxy_step fx (pc_cfg pc) now br st (EvUdp li src sport data) = Ok (st', outs) ->
-  (forall v1 v2 vrest m4 pins',
-     is_response m = true ->
-     flat_view (via_hdrs m) = v1 :: v2 :: vrest ->
-     outs = x_outs (fst (send_message (step_env fx (pc_cfg pc) li lc now br) (hop_host v2) (hop_port v2)
-                           (v_transport v2) m4 (pin_ctx st p pins'))) ->
-     write_message (sent_msg m4) = relayed_bytes fx (pc_cfg pc) now br st li lc p src sport m ->
-     dest_ok pc stj (j_dest (pc_cfg pc) (v_transport v2) (hop_host v2) (hop_port v2))
-             (msgs_of (map B13.labelled (filter vis outs))) = true) ->
-  judge_C02_event pc stj (EvUdp li src sport data) (map B13.labelled (filter vis outs)) closed = O.
-Proof. first [ exact C02_bridge.C02_judge_bridge_core | intros; eapply C02_bridge.C02_judge_bridge_core; eassumption ]. Qed.
-Theorem C02_judge_bridge_step_udp :
-  forall (pc : proxy_case) (stj : jstate) (fx : fixes) (now : Z) (br : bytes) (st : state) (li : nat)
-         (lc : listen_cfg) (src : bytes) (sport : Z) (data : bytes) (jin : jmsg) (m : message) (rest : bytes)
-         (p : pstate) (st' : state) (outs : list output) (closed : list nat)
-         (v1 v2 : via_param) (vrest : list via_param) (ip : bytes),
-  nth_opt (c_listens (pc_cfg pc)) li = Some lc -> nth_p (st_proxies st) li = Some p ->
-  j_read data = Some jin -> parse_message data = Ok (m, rest) ->
-  via_domain m ->
-  flat_view (via_hdrs m) = v1 :: v2 :: vrest ->
-  to_lower (v_transport v2) = s2b "udp" ->
-  get_ip (pc_cfg pc) (hop_host v2) = Some ip -> resolvable ip (hop_port v2) = true ->
-  udp_slot_ok ip (hop_port v2) p ->
-  fits_datagram (relayed_bytes fx (pc_cfg pc) now br st li lc p src sport m) = true ->
-  proxy_step fx (pc_cfg pc) now br st (EvUdp li src sport data) = Ok (st', outs) ->
-  judge_C02_event pc stj (EvUdp li src sport data)
-    (map B13.labelled (filter (visible (pc_udp_endpoints pc)) outs)) closed = O.
-Proof. first [ exact C02_bridge.C02_judge_bridge_step_udp | intros; eapply C02_bridge.C02_judge_bridge_step_udp; eassumption ]. Qed.
-Theorem C02_judge_bridge_step_drop :
-  forall (pc : proxy_case) (stj : jstate) (fx : fixes) (now : Z) (br : bytes) (st : state) (li : nat)
-         (lc : listen_cfg) (src : bytes) (sport : Z) (data : bytes) (jin : jmsg) (m : message) (rest : bytes)
-         (p : pstate) (st' : state) (outs : list output) (vis : output -> bool) (closed : list nat),
-  nth_opt (c_listens (pc_cfg pc)) li = Some lc -> nth_p (st_proxies st) li = Some p ->
-  j_read data = Some jin -> parse_message data = Ok (m, rest) ->
-  via_domain m ->
-  (List.length (flat_view (via_hdrs m)) <= 1)%nat ->
-  proxy_step fx (pc_cfg pc) now br st (EvUdp li src sport data) = Ok (st', outs) ->
-  judge_C02_event pc stj (EvUdp li src sport data) (map B13.labelled (filter vis outs)) closed = O.
-Proof. first [ exact C02_bridge.C02_judge_bridge_step_drop | intros; eapply C02_bridge.C02_judge_bridge_step_drop; eassumption ]. Qed.
-Theorem C02_judge_bridge_step_unsupported :
-  forall (pc : proxy_case) (stj : jstate) (fx : fixes) (now : Z) (br : bytes) (st : state) (li : nat)
-         (lc : listen_cfg) (src : bytes) (sport : Z) (data : bytes) (jin : jmsg) (m : message) (rest : bytes)
-         (p : pstate) (st' : state) (outs : list output) (vis : output -> bool) (closed : list nat)
-         (v1 v2 : via_param) (vrest : list via_param),
-  nth_opt (c_listens (pc_cfg pc)) li = Some lc -> nth_p (st_proxies st) li = Some p ->
-  j_read data = Some jin -> parse_message data = Ok (m, rest) ->
-  via_domain m ->
-  flat_view (via_hdrs m) = v1 :: v2 :: vrest ->
-  supported_proto (to_lower (v_transport v2)) = false ->
-  proxy_step fx (pc_cfg pc) now br st (EvUdp li src sport data) = Ok (st', outs) ->
-  judge_C02_event pc stj (EvUdp li src sport data) (map B13.labelled (filter vis outs)) closed = O.
-Proof. first [ exact C02_bridge.C02_judge_bridge_step_unsupported | intros; eapply C02_bridge.C02_judge_bridge_step_unsupported; eassumption ]. Qed.
-Theorem C02_judge_bridge_step_unresolved :
-  forall (pc : proxy_case) (stj : jstate) (fx : fixes) (now : Z) (br : bytes) (st : state) (li : nat)
-         (lc : listen_cfg) (src : bytes) (sport : Z) (data : bytes) (jin : jmsg) (m : message) (rest : bytes)
-         (p : pstate) (st' : state) (outs : list output) (vis : output -> bool) (closed : list nat)
-         (v1 v2 : via_param) (vrest : list via_param),
-  nth_opt (c_listens (pc_cfg pc)) li = Some lc -> nth_p (st_proxies st) li = Some p ->
-  j_read data = Some jin -> parse_message data = Ok (m, rest) ->
-  via_domain m ->
-  flat_view (via_hdrs m) = v1 :: v2 :: vrest ->
-  get_ip (pc_cfg pc) (hop_host v2) = None ->
-  proxy_step fx (pc_cfg pc) now br st (EvUdp li src sport data) = Ok (st', outs) ->
-  judge_C02_event pc stj (EvUdp li src sport data) (map B13.labelled (filter vis outs)) closed = O.
-Proof. first [ exact C02_bridge.C02_judge_bridge_step_unresolved | intros; eapply C02_bridge.C02_judge_bridge_step_unresolved; eassumption ]. Qed.
-Theorem C02_judge_bridge_step_tcp_partial :
-  forall (pc : proxy_case) (stj : jstate) (fx : fixes) (now : Z) (br : bytes) (st : state) (li : nat)
-         (lc : listen_cfg) (src : bytes) (sport : Z) (data : bytes) (jin : jmsg) (m : message) (rest : bytes)
-         (p : pstate) (st' : state) (outs : list output) (closed : list nat)
-         (v1 v2 : via_param) (vrest : list via_param) (ip : bytes),
-  nth_opt (c_listens (pc_cfg pc)) li = Some lc -> nth_p (st_proxies st) li = Some p ->
-  j_read data = Some jin -> parse_message data = Ok (m, rest) ->
-  via_domain m ->
-  flat_view (via_hdrs m) = v1 :: v2 :: vrest ->
-  to_lower (v_transport v2) = s2b "tcp" ->
-  get_ip (pc_cfg pc) (hop_host v2) = Some ip ->
-  fx_udp_via_listener fx = true -> tcp_slot_ok p ->
-  proxy_step fx (pc_cfg pc) now br st (EvUdp li src sport data) = Ok (st', outs) ->
-  tcp_quiet_ok pc stj ip (hop_port v2) outs ->
-  judge_C02_event pc stj (EvUdp li src sport data)
-    (map B13.labelled (filter (visible (pc_udp_endpoints pc)) outs)) closed = O.
-Proof. first [ exact C02_bridge.C02_judge_bridge_step_tcp_partial | intros; eapply C02_bridge.C02_judge_bridge_step_tcp_partial; eassumption ]. Qed.
-Theorem C02_judge_bridge_step_tcp_sent :
-  forall (pc : proxy_case) (stj : jstate) (fx : fixes) (now : Z) (br : bytes) (st : state) (li : nat)
-         (lc : listen_cfg) (src : bytes) (sport : Z) (data : bytes) (jin : jmsg) (m : message) (rest : bytes)
-         (p : pstate) (st' : state) (outs : list output) (closed : list nat)
-         (v1 v2 : via_param) (vrest : list via_param) (ip : bytes),
-  nth_opt (c_listens (pc_cfg pc)) li = Some lc -> nth_p (st_proxies st) li = Some p ->
-  j_read data = Some jin -> parse_message data = Ok (m, rest) ->
-  via_domain m ->
-  flat_view (via_hdrs m) = v1 :: v2 :: vrest ->
-  to_lower (v_transport v2) = s2b "tcp" ->
-  get_ip (pc_cfg pc) (hop_host v2) = Some ip ->
-  fx_udp_via_listener fx = true -> tcp_slot_ok p ->
-  proxy_step fx (pc_cfg pc) now br st (EvUdp li src sport data) = Ok (st', outs) ->
-  filter C06.is_msg outs <> [] ->
-  judge_C02_event pc stj (EvUdp li src sport data)
-    (map B13.labelled (filter (visible (pc_udp_endpoints pc)) outs)) closed = O.
-Proof. first [ exact C02_bridge.C02_judge_bridge_step_tcp_sent | intros; eapply C02_bridge.C02_judge_bridge_step_tcp_sent; eassumption ]. Qed.
-Theorem C02_judge_bridge_step_tcp_fresh :
-  forall (pc : proxy_case) (stj : jstate) (fx : fixes) (now : Z) (br : bytes) (st : state) (li : nat)
-         (lc : listen_cfg) (src : bytes) (sport : Z) (data : bytes) (jin : jmsg) (m : message) (rest : bytes)
-         (p : pstate) (st' : state) (outs : list output) (closed : list nat)
-         (v1 v2 : via_param) (vrest : list via_param) (ip : bytes),
-  tcp_agree pc stj st ip (hop_port v2) ->
-  nth_opt (c_listens (pc_cfg pc)) li = Some lc -> nth_p (st_proxies st) li = Some p ->
-  j_read data = Some jin -> parse_message data = Ok (m, rest) ->
-  via_domain m ->
-  flat_view (via_hdrs m) = v1 :: v2 :: vrest ->
-  to_lower (v_transport v2) = s2b "tcp" ->
-  get_ip (pc_cfg pc) (hop_host v2) = Some ip ->
-  fx_udp_via_listener fx = true -> tcp_fresh ip (hop_port v2) p ->
-  proxy_step fx (pc_cfg pc) now br st (EvUdp li src sport data) = Ok (st', outs) ->
-  judge_C02_event pc stj (EvUdp li src sport data)
-    (map B13.labelled (filter (visible (pc_udp_endpoints pc)) outs)) closed = O.
-Proof. first [ exact C02_bridge.C02_judge_bridge_step_tcp_fresh | intros; eapply C02_bridge.C02_judge_bridge_step_tcp_fresh; eassumption ]. Qed.
-Theorem C02_response_general : forall e from m x, is_request m = false ->
-  match top_view (pop_view (via_hdrs m)) with
-  | Some v2 =>
-      exists m4 pins',
-        handle_message e from m x =
-          send_message e (hop_host v2) (hop_port v2) (v_transport v2) m4
-            {| x_learned := x_learned x; x_p := with_pins (x_p x) pins'; x_conns := x_conns x;
-               x_world := x_world x; x_outs := x_outs x |} /\
-        m_start m4 = m_start m /\ m_body m4 = m_body m /\ via_hdrs m4 = pop_view (via_hdrs m)
-  | None => fst (handle_message e from m x) = x
-  end.
-Proof. first [ exact C02.C02_response_general | intros; eapply C02.C02_response_general; eassumption ]. Qed.
-Theorem C02_response_hop : forall e from m x v1 v2 rest1 t,
-  is_response m = true ->
-  (via_hdrs m = Some (v1 :: v2 :: rest1) :: t          (* comma list in the first Via header *)
-   \/ via_hdrs m = Some [v1] :: Some (v2 :: rest1) :: t)  (* repeated header lines *) ->
-  exists m4 pins',
-    handle_message e from m x =
-      send_message e (hop_host v2) (hop_port v2) (v_transport v2) m4
-        {| x_learned := x_learned x; x_p := with_pins (x_p x) pins'; x_conns := x_conns x;
-           x_world := x_world x; x_outs := x_outs x |} /\
-    m_start m4 = m_start m /\ m_body m4 = m_body m /\
-    via_hdrs m4 = Some (v2 :: rest1) :: t /\
-    snd (decode_all_vias (m_headers m)) = v1 :: snd (decode_all_vias (m_headers m4)).
-Proof. first [ exact C02.C02_response_hop | intros; eapply C02.C02_response_hop; eassumption ]. Qed.
-Theorem C02_single_via_dropped : forall e from m x,
-  is_response m = true ->
-  (via_hdrs m = [] \/ (exists l, via_hdrs m = [Some l] /\ (List.length l <= 1)%nat)) ->
-  fst (handle_message e from m x) = x.
-Proof. first [ exact C02.C02_single_via_dropped | intros; eapply C02.C02_single_via_dropped; eassumption ]. Qed.
-Theorem C02_undecodable_dropped : forall e from m x t,
-  is_response m = true ->
-  (via_hdrs m = None :: t                                  (* first Via header does not decode *)
-   \/ (exists l, via_hdrs m = Some l :: None :: t /\ (List.length l <= 1)%nat)  (* the next one does not *)
-   \/ (exists l, via_hdrs m = Some l :: Some [] :: t /\ (List.length l <= 1)%nat)) ->
-  fst (handle_message e from m x) = x.
-Proof. first [ exact C02.C02_undecodable_dropped | intros; eapply C02.C02_undecodable_dropped; eassumption ]. Qed.
-Theorem C02_dest_unsupported : forall e host port tr m x,
-  supported_proto (to_lower tr) = false ->
-  x_outs (fst (send_message e host port tr m x)) = x_outs x.
-Proof. first [ exact C02.C02_dest_unsupported | intros; eapply C02.C02_dest_unsupported; eassumption ]. Qed.
-Theorem C02_dest_udp : forall e host port tr m x ip,
-  to_lower tr = s2b "udp" -> get_ip (e_cfg e) host = Some ip -> resolvable ip port = true ->
-  udp_slot_ok ip port (x_p x) -> fits_datagram (write_message (sent_msg m)) = true ->
-  x_outs (fst (send_message e host port tr m x)) = x_outs x ++ [(DUdp ip port, write_message (sent_msg m))].
-Proof. first [ exact C02.C02_dest_udp | intros; eapply C02.C02_dest_udp; eassumption ]. Qed.
-Theorem C02_dest_tcp : forall e host port tr m x,
-  fx_udp_via_listener (e_fx e) = true -> to_lower tr = s2b "tcp" -> tcp_slot_ok (x_p x) ->
-  exists outs, x_outs (fst (send_message e host port tr m x)) = x_outs x ++ outs /\
-               tcp_shape (write_message (sent_msg m)) outs.
-Proof. first [ exact C02.C02_dest_tcp | intros; eapply C02.C02_dest_tcp; eassumption ]. Qed.
-Theorem C02_tcp_slot_reachable : forall fx c st,
-  fx_udp_via_listener fx = true -> reachable fx c st -> Forall tcp_slot_ok (st_proxies st).
-Proof. first [ exact C02.C02_tcp_slot_reachable | intros; eapply C02.C02_tcp_slot_reachable; eassumption ]. Qed.
-Theorem C02_independent_of_pins : forall e from m x pins' rr' gen' l',
-  is_response m = true -> fx_udp_via_listener (e_fx e) = true -> udp_known (x_p x) ->
-  let y := {| x_learned := l'; x_p := graft pins' rr' gen' (x_p x); x_conns := x_conns x;
-              x_world := x_world x; x_outs := x_outs x |} in
-  x_outs (fst (handle_message e from m y)) = x_outs (fst (handle_message e from m x)) /\
-  x_conns (fst (handle_message e from m y)) = x_conns (fst (handle_message e from m x)) /\
-  x_world (fst (handle_message e from m y)) = x_world (fst (handle_message e from m x)).
-Proof. first [ exact C02.C02_independent_of_pins | intros; eapply C02.C02_independent_of_pins; eassumption ]. Qed.
-Theorem C02_roundtrip_return : forall e from r x br t0 src sport v rest t,
-  is_response r = true -> (int_min <= sport <= int_max)%Z ->
-  via_hdrs r = Some [own_via br t0] :: Some (stamp src sport v :: rest) :: t ->
-  exists m4 pins',
-    handle_message e from r x =
-      send_message e src (if kv_has (s2b "rport") (v_params v) then sport else via_get_port v) (v_transport v) m4
-        {| x_learned := x_learned x; x_p := with_pins (x_p x) pins'; x_conns := x_conns x;
-           x_world := x_world x; x_outs := x_outs x |} /\
-    via_hdrs m4 = Some (stamp src sport v :: rest) :: t.
-Proof. first [ exact C02.C02_roundtrip_return | intros; eapply C02.C02_roundtrip_return; eassumption ]. Qed.
-Theorem C02_roundtrip : forall e src sport from tcp q x x' v rest t,
-  is_request q = true -> via_hdrs q = Some (v :: rest) :: t -> (int_min <= sport <= int_max)%Z ->
-  process_message e src sport from true tcp q x = Ok x' ->
-  exists outs, x_outs x' = x_outs x ++ outs /\
-    Forall (fun o =>
-      match fst o with
-      | DDial _ _ _ => snd o = []
-      | _ => exists q', snd o = write_message q' /\
-          (via_hdrs q' = Some (stamp src sport v :: rest) :: t
-           \/ exists t0, via_hdrs q' = Some [own_via (e_branch e) t0] :: Some (stamp src sport v :: rest) :: t /\
-                forall e2 from2 r y, is_response r = true -> via_hdrs r = via_hdrs q' ->
-                  exists m4 pins',
-                    handle_message e2 from2 r y =
-                      send_message e2 src (if kv_has (s2b "rport") (v_params v) then sport else via_get_port v)
-                        (v_transport v) m4
-                        {| x_learned := x_learned y; x_p := with_pins (x_p y) pins'; x_conns := x_conns y;
-                           x_world := x_world y; x_outs := x_outs y |} /\
-                    via_hdrs m4 = Some (stamp src sport v :: rest) :: t)
-      end) outs.
-Proof. first [ exact C02.C02_roundtrip | intros; eapply C02.C02_roundtrip; eassumption ]. Qed.
-Theorem C02_process_response : forall e peer port from rs tcp m0 x x',
-  is_response m0 = true ->
-  process_message e peer port from rs tcp m0 x = Ok x' ->
-  match top_view (pop_view (via_hdrs m0)) with
-  | Some v2 =>
-      exists m4 pins',
-        x' = fst (send_message e (hop_host v2) (hop_port v2) (v_transport v2) m4
-                   {| x_learned := x_learned x; x_p := with_pins (x_p x) pins'; x_conns := x_conns x;
-                      x_world := x_world x; x_outs := x_outs x |}) /\
-        m_start m4 = m_start m0 /\ m_body m4 = m_body m0 /\ via_hdrs m4 = pop_view (via_hdrs m0)
-  | None => x_outs x' = x_outs x /\ x_conns x' = x_conns x /\ x_world x' = x_world x /\ x_learned x' = x_learned x
-  end.
-Proof. first [ exact C02.C02_process_response | intros; eapply C02.C02_process_response; eassumption ]. Qed.
-End P_C02.
-
-(* ------------------------------------------------------------------ C03 *)
-From Model Require Import Bytes Wire Uri Hdr Message Msg StaticRoute RoundRobin Pins Proxy RunProxy SpecC14 SpecProxy SpecProxy2.
-From Model.proofs Require C02 C13_bridge C06 C13 C03 C03_bridge.
-Section P_C03.
-Import C02 C13_bridge C06 C13 C03 C03_bridge.
-Theorem C03_choose_agree : forall c lc data jin m rest q,
-  j_read data = Some jin -> parse_message data = Ok (m, rest) -> j_request jin = Some q ->
-  route_domain_in (RS m) -> to_domain m -> ruri_domain jin -> routes_ok c ->
-  is_request m = true /\ hop_rel c (j_choose c lc false q) (effective_hop c (udp_transport lc) m).
-Proof. first [ exact C03_bridge.choose_agree | intros; eapply C03_bridge.choose_agree; eassumption ]. Qed.
-Theorem C03_judge_bridge_udp :
-  forall pc stj li lc src sport data closed jin m rest e rs x x' l,
-  nth_opt (c_listens (pc_cfg pc)) li = Some lc -> e_cfg e = pc_cfg pc -> e_lc e = lc ->
-  j_read data = Some jin -> parse_message data = Ok (m, rest) ->
-  route_domain_in (RS m) -> to_domain m -> ruri_domain jin ->
-  hosts_ok (pc_cfg pc) -> routes_ok (pc_cfg pc) -> (0 < lc_udp lc)%Z ->
-  fx_udp_via_listener (e_fx e) = true -> fx_stale_pin (e_fx e) = true ->
-  nth_opt (js_backends stj) li = Some l -> pool_agree l (x_p x) ->
-  Forall (backend_ok (pc_udp_endpoints pc)) l ->
-  (forall ip port, C02.udp_slot_ok ip port (x_p x)) -> C02.tcp_slot_ok (x_p x) ->
-  fits_datagram (write_message (would_send e src sport (udp_transport lc) rs m x)) = true ->
-  process_message e src sport (udp_transport lc) rs None m x = Ok x' ->
-  exists pre, x_outs x' = x_outs x ++ pre /\ (msg_count pre <= 1)%nat /\
-    ((forall q ip port, j_request jin = Some q -> j_choose (pc_cfg pc) lc false q = HHop (JTcp ip port) ->
-        msg_count pre = 0%nat -> dest_ok pc stj (JTcp ip port) [] = true) ->
-     judge_C03_event pc stj (EvUdp li src sport data)
-       (map labelled (filter (visible (pc_udp_endpoints pc)) pre)) closed = 0%nat).
-Proof. first [ exact C03_bridge.C03_judge_bridge_udp | intros; eapply C03_bridge.C03_judge_bridge_udp; eassumption ]. Qed.
-Theorem C03_judge_bridge_step :
-  forall pc stj fx now br st st' outs li lc p src sport data closed jin m rest,
-  nth_opt (c_listens (pc_cfg pc)) li = Some lc ->
-  j_read data = Some jin -> parse_message data = Ok (m, rest) ->
-  route_domain_in (RS m) -> to_domain m -> ruri_domain jin ->
-  hosts_ok (pc_cfg pc) -> routes_ok (pc_cfg pc) -> (0 < lc_udp lc)%Z ->
-  fx_udp_via_listener fx = true -> fx_stale_pin fx = true ->
-  agree stj st -> nth_p (st_proxies st) li = Some p ->
-  (forall l, nth_opt (js_backends stj) li = Some l -> Forall (backend_ok (pc_udp_endpoints pc)) l) ->
-  (forall ip port, C02.udp_slot_ok ip port p) -> C02.tcp_slot_ok p ->
-  fits_datagram (write_message (step_would_send fx (pc_cfg pc) now br st li lc p src sport m)) = true ->
-  proxy_step fx (pc_cfg pc) now br st (EvUdp li src sport data) = Ok (st', outs) ->
-  (forall q ip port, j_request jin = Some q -> j_choose (pc_cfg pc) lc false q = HHop (JTcp ip port) ->
-     msg_count outs = 0%nat -> dest_ok pc stj (JTcp ip port) [] = true) ->
-  judge_C03_event pc stj (EvUdp li src sport data)
-    (map labelled (filter (visible (pc_udp_endpoints pc)) outs)) closed = 0%nat.
-Proof. first [ exact C03_bridge.C03_judge_bridge_step | intros; eapply C03_bridge.C03_judge_bridge_step; eassumption ]. Qed.
-Theorem C03_judge_bridge_step_no_tcp :
-  forall pc stj fx now br st st' outs li lc p src sport data closed jin m rest,
-  nth_opt (c_listens (pc_cfg pc)) li = Some lc ->
-  j_read data = Some jin -> parse_message data = Ok (m, rest) ->
-  route_domain_in (RS m) -> to_domain m -> ruri_domain jin ->
-  hosts_ok (pc_cfg pc) -> routes_ok (pc_cfg pc) -> (0 < lc_udp lc)%Z ->
-  fx_udp_via_listener fx = true -> fx_stale_pin fx = true ->
-  agree stj st -> nth_p (st_proxies st) li = Some p ->
-  (forall l, nth_opt (js_backends stj) li = Some l -> Forall (backend_ok (pc_udp_endpoints pc)) l) ->
-  (forall ip port, C02.udp_slot_ok ip port p) -> C02.tcp_slot_ok p ->
-  fits_datagram (write_message (step_would_send fx (pc_cfg pc) now br st li lc p src sport m)) = true ->
-  proxy_step fx (pc_cfg pc) now br st (EvUdp li src sport data) = Ok (st', outs) ->
-  (forall q ip port, j_request jin = Some q -> j_choose (pc_cfg pc) lc false q <> HHop (JTcp ip port)) ->
-  judge_C03_event pc stj (EvUdp li src sport data)
-    (map labelled (filter (visible (pc_udp_endpoints pc)) outs)) closed = 0%nat.
-Proof. first [ exact C03_bridge.C03_judge_bridge_step_no_tcp | intros; eapply C03_bridge.C03_judge_bridge_step_no_tcp; eassumption ]. Qed.
-Theorem C03_agree_step_udp : forall pc stj fx now br st st' outs li src sport data,
-  agree stj st ->
-  proxy_step fx (pc_cfg pc) now br st (EvUdp li src sport data) = Ok (st', outs) ->
-  dials_readable outs ->
-  agree (js_step_c stj (EvUdp li src sport data) (map labelled (filter (visible (pc_udp_endpoints pc)) outs)) []) st'.
-Proof. first [ exact C03_bridge.agree_step_udp | intros; eapply C03_bridge.agree_step_udp; eassumption ]. Qed.
-Theorem C03_at_most_one : forall e peer peer_port from rs tcp m x x',
-  process_message e peer peer_port from rs tcp m x = Ok x' ->
-  exists extra, x_outs x' = x_outs x ++ extra /\ (msg_count extra <= 1)%nat.
-Proof. first [ exact C03.C03_at_most_one | intros; eapply C03.C03_at_most_one; eassumption ]. Qed.
-Theorem C03_at_most_one_udp : forall fx c now branch st li src sport data st' outs,
-  proxy_step fx c now branch st (EvUdp li src sport data) = Ok (st', outs) -> (msg_count outs <= 1)%nat.
-Proof. first [ exact C03.C03_at_most_one_udp | intros; eapply C03.C03_at_most_one_udp; eassumption ]. Qed.
-Theorem C03_at_most_one_tcp : forall fx c now branch st cid data st' outs,
-  proxy_step fx c now branch st (EvTcpData cid data) = Ok (st', outs) ->
-  exists chunks, outs = List.concat chunks /\
-                 (List.length chunks <= List.length (parse_stream (S (List.length data)) data))%nat /\
-                 Forall (fun ch => (msg_count ch <= 1)%nat) chunks.
-Proof. first [ exact C03.C03_at_most_one_tcp | intros; eapply C03.C03_at_most_one_tcp; eassumption ]. Qed.
-Theorem C03_choice : forall e peer peer_port from rs tcp m0 x x',
-  is_request m0 = true ->
-  process_message e peer peer_port from rs tcp m0 x = Ok x' ->
-  exists m1 p1,
-    let x1 := {| x_learned := learned_after peer from m0 x; x_p := p1; x_conns := x_conns x;
-                 x_world := x_world x; x_outs := x_outs x |} in
-    same_rr (x_p x) p1 /\
-    (forall nm, disjoint_names nm (s2b "Via") -> disjoint_names nm (s2b "CSeq") ->
-                disjoint_names nm (s2b "Route") -> disjoint_names nm (s2b "To") -> frame nm m0 m1) /\
-    via_rel m0 m1 /\
-    route_view m1 = skipn (route_consumed (e_cfg e) from (c_keep_next_hop (e_cfg e)) (route_view m0)) (route_view m0) /\
-    match effective_hop (e_cfg e) from m0 with
-    | HopAddr host port transport =>
-        x' = fst (send_message e host port transport (decorate e (x_learned x1) host m1) x1)
-    | HopBackend => x' = fst (send_to_backend e m1 x1)
-    | HopNone => x' = x1
-    | HopOut => False
-    end.
-Proof. first [ exact C03.C03_choice | intros; eapply C03.C03_choice; eassumption ]. Qed.
-Theorem C03_choice_outputs : forall e peer peer_port from rs tcp m0 x x',
-  is_request m0 = true ->
-  process_message e peer peer_port from rs tcp m0 x = Ok x' ->
-  exists extra, x_outs x' = x_outs x ++ extra /\ (msg_count extra <= 1)%nat /\
-    match effective_hop (e_cfg e) from m0 with
-    | HopAddr host port transport =>
-        (* only through the client transport for (transport, host, port); nothing for a
-           transport other than udp / tcp *)
-        supported_proto (to_lower transport) = false -> extra = []
-    | HopBackend =>
-        extra = [] \/ exists a d b, extra = [(d, b)] /\ backend_dest a = Some d /\
-                                    (In a (rr_backends (ps_rr (x_p x))) \/ exists g, backend_alive a g (x_p x) = true)
-    | HopNone => extra = []
-    | HopOut => False
-    end.
-Proof. first [ exact C03.C03_choice_outputs | intros; eapply C03.C03_choice_outputs; eassumption ]. Qed.
-Theorem C03_non_sip_route : forall c from m rp rest s,
-  remaining_routes c from m = EDec rp :: rest -> na_addr (r_addr rp) = AAbs s ->
-  choose_hop c from m = HopOut /\ effective_hop c from m = lower_choice c from m /\
-  forall keep, route_consumed c from keep (route_view m) =
-               ((match route_view m with EDec e1 :: _ => if designates c from e1 then 1 else 0 | _ => 0 end) +
-                (if keep then 0 else 1))%nat.
-Proof. first [ exact C03.C03_non_sip_route | intros; eapply C03.C03_non_sip_route; eassumption ]. Qed.
-Theorem C03_backend_member : forall e m x,
-  (forall a g, pinned_backend e (x_p x) m <> Some (BObj a g)) ->
-  exists extra, x_outs (fst (send_to_backend e m x)) = x_outs x ++ extra /\
-    (extra = [] \/ exists a d b, extra = [(d, b)] /\ In a (rr_backends (ps_rr (x_p x))) /\ backend_dest a = Some d) /\
-    (rr_backends (ps_rr (x_p x)) = [] -> extra = []).
-Proof. first [ exact C03.C03_backend_member | intros; eapply C03.C03_backend_member; eassumption ]. Qed.
-Theorem C03_backend_member_event : forall e peer peer_port from rs tcp m0 x x',
-  is_request m0 = true ->
-  process_message e peer peer_port from rs tcp m0 x = Ok x' ->
-  effective_hop (e_cfg e) from m0 = HopBackend ->
-  exists m1 p1, same_rr (x_p x) p1 /\
-    ((forall a g, pinned_backend e p1 m1 <> Some (BObj a g)) ->
-     exists extra, x_outs x' = x_outs x ++ extra /\
-       (extra = [] \/ exists a d b, extra = [(d, b)] /\ In a (rr_backends (ps_rr (x_p x))) /\ backend_dest a = Some d) /\
-       (rr_backends (ps_rr (x_p x)) = [] -> extra = [])).
-Proof. first [ exact C03.C03_backend_member_event | intros; eapply C03.C03_backend_member_event; eassumption ]. Qed.
-Theorem C03_unsupported_transport_dropped : forall e host port transport m x,
-  to_lower transport <> s2b "udp" -> to_lower transport <> s2b "tcp" ->
-  x_outs (fst (send_message e host port transport m x)) = x_outs x.
-Proof. first [ exact C03.C03_unsupported_transport_dropped | intros; eapply C03.C03_unsupported_transport_dropped; eassumption ]. Qed.
-Theorem C03_unsupported_transport_event : forall e peer peer_port from rs tcp m0 x x' host port transport,
-  is_request m0 = true ->
-  process_message e peer peer_port from rs tcp m0 x = Ok x' ->
-  effective_hop (e_cfg e) from m0 = HopAddr host port transport ->
-  to_lower transport <> s2b "udp" -> to_lower transport <> s2b "tcp" ->
-  x_outs x' = x_outs x.
-Proof. first [ exact C03.C03_unsupported_transport_event | intros; eapply C03.C03_unsupported_transport_event; eassumption ]. Qed.
-Theorem C03_b1_legacy_refuted :
-  effective_hop cfgA ex_from (msg_of b1_req) = HopAddr (s2b "10.0.0.5") 5070 (s2b "tcp") /\
-  dests (run1 b1_fixes cfgA [(s2b "10.0.0.5", 5070)] b1_req) = [DUdp (s2b "10.0.0.5") 5070] /\
-  dests (run1 all_fixed cfgA [(s2b "10.0.0.5", 5070)] b1_req) = [DDial (s2b "10.0.0.5") 5070 0; DConn 0].
-Proof. first [ exact C03.C03_b1_legacy_refuted | intros; eapply C03.C03_b1_legacy_refuted; eassumption ]. Qed.
-End P_C03.
-
-(* ------------------------------------------------------------------ C06 *)
-From Model Require Import Bytes Wire Uri Hdr Message Msg StaticRoute RoundRobin Pins Proxy RunProxy SpecC14 SpecProxy SpecProxy2.
-From Model.proofs Require C07_bridge C13_bridge C06 C13 C03 C06_bridge.
-Section P_C06.
-Import C07_bridge C13_bridge C06 C13 C03 C06_bridge.
-Theorem C06_judge_bridge_step :
-  forall pc stj fx now br st st' outs li lc src sport data closed jin m rest,
-  nth_opt (c_listens (pc_cfg pc)) li = Some lc ->
-  j_read data = Some jin -> parse_message data = Ok (m, rest) ->
-  br = branch_of (js_event stj) ->
-  agree_learned (pc_cfg pc) (js_learned stj) (st_learned st) ->
-  (forall p, nth_p (st_proxies st) li = Some p -> amem src (ps_backends p) = false) ->
-  B7.via_domain m -> B13.route_domain_in (B13.RS m) -> to_domain m -> ruri_domain jin ->
-  B7.src_ok src -> B7.branch_ok br ->
-  safe1 (lc_addr lc) = true -> (1 <= lc_udp lc <= 65535)%Z -> (0 <= lc_tcp lc <= 65535)%Z ->
-  lrn_ok (st_learned st) ->
-  proxy_step fx (pc_cfg pc) now br st (EvUdp li src sport data) = Ok (st', outs) ->
-  forall vis, judge_C06_event pc stj (EvUdp li src sport data) (map B13.labelled (filter vis outs)) closed = 0%nat.
-Proof. first [ exact C06_bridge.C06_judge_bridge_step | intros; eapply C06_bridge.C06_judge_bridge_step; eassumption ]. Qed.
-Theorem C06_judge_bridge_udp :
-  forall pc stj li lc src sport data closed jin m rest e rs x x' pre,
-  nth_opt (c_listens (pc_cfg pc)) li = Some lc -> e_cfg e = pc_cfg pc -> e_lc e = lc ->
-  e_branch e = branch_of (js_event stj) ->
-  j_read data = Some jin -> parse_message data = Ok (m, rest) ->
-  agree_learned (pc_cfg pc) (js_learned stj) (x_learned x) ->
-  amem src (ps_backends (x_p x)) = false ->
-  B7.via_domain m -> B13.route_domain_in (B13.RS m) -> to_domain m -> ruri_domain jin ->
-  B7.src_ok src -> B7.branch_ok (e_branch e) ->
-  safe1 (lc_addr lc) = true -> (1 <= lc_udp lc <= 65535)%Z -> (0 <= lc_tcp lc <= 65535)%Z ->
-  lrn_ok (x_learned x) ->
-  process_message e src sport (B13.udp_transport lc) rs None m x = Ok x' ->
-  x_outs x' = x_outs x ++ pre ->
-  forall vis, judge_C06_event pc stj (EvUdp li src sport data) (map B13.labelled (filter vis pre)) closed = 0%nat.
-Proof. first [ exact C06_bridge.C06_judge_bridge_udp | intros; eapply C06_bridge.C06_judge_bridge_udp; eassumption ]. Qed.
-Theorem C06_agree_step :
-  forall pc stj fx now br st st' outs li lc src sport data jin m rest outs' closed,
-  nth_opt (c_listens (pc_cfg pc)) li = Some lc ->
-  j_read data = Some jin -> parse_message data = Ok (m, rest) ->
-  agree_learned (pc_cfg pc) (js_learned stj) (st_learned st) ->
-  (exists p, nth_p (st_proxies st) li = Some p /\ amem src (ps_backends p) = false) ->
-  B7.via_domain m ->
-  proxy_step fx (pc_cfg pc) now br st (EvUdp li src sport data) = Ok (st', outs) ->
-  agree_learned (pc_cfg pc) (js_learned (js_step_c stj (EvUdp li src sport data) outs' closed)) (st_learned st').
-Proof. first [ exact C06_bridge.C06_agree_step | intros; eapply C06_bridge.C06_agree_step; eassumption ]. Qed.
-Theorem C06_lrn_ok_step :
-  forall fx c now br st st' outs li lc src sport data,
-  nth_opt (c_listens c) li = Some lc -> safe1 (lc_addr lc) = true -> (1 <= lc_udp lc <= 65535)%Z ->
-  lrn_ok (st_learned st) ->
-  proxy_step fx c now br st (EvUdp li src sport data) = Ok (st', outs) -> lrn_ok (st_learned st').
-Proof. first [ exact C06_bridge.C06_lrn_ok_step | intros; eapply C06_bridge.C06_lrn_ok_step; eassumption ]. Qed.
-Theorem C06_via_pushed : forall e t m,
-  let k := via_pos m in
-  m_headers (px_add_via e t m) = firstn k (m_headers m) ++ pushed_via_header e t :: skipn k (m_headers m) /\
-  m_start (px_add_via e t m) = m_start m /\ m_body (px_add_via e t m) = m_body m /\
-  sel (s2b "Via") (m_headers (px_add_via e t m)) = pushed_via_header e t :: sel (s2b "Via") (m_headers m) /\
-  all_vias (m_headers (px_add_via e t m)) = pushed_via e t :: all_vias (m_headers m) /\
-  (forall nm, same_header (s2b "Via") nm = false -> frame nm m (px_add_via e t m)).
-Proof. first [ exact C06.C06_via_pushed | intros; eapply C06.C06_via_pushed; eassumption ]. Qed.
-Theorem C06_via_position : forall e t m,
-  let k := via_pos m in
-  (k <= List.length (m_headers m))%nat /\
-  nth_error (m_headers (px_add_via e t m)) k = Some (pushed_via_header e t) /\
-  firstn k (m_headers (px_add_via e t m)) = firstn k (m_headers m) /\
-  skipn (S k) (m_headers (px_add_via e t m)) = skipn k (m_headers m) /\
-  sel (s2b "Via") (firstn k (m_headers m)) = [] /\
-  (sel (s2b "Via") (m_headers m) = [] -> k = O) /\
-  (sel (s2b "Via") (m_headers m) <> [] ->
-     exists h r, skipn k (m_headers m) = h :: r /\ same_header (h_name h) (s2b "Via") = true).
-Proof. first [ exact C06.C06_via_position | intros; eapply C06.C06_via_position; eassumption ]. Qed.
-Theorem C06_branch : forall e t, via_get_branch (pushed_via e t) = Some (e_branch e).
-Proof. first [ exact C06.C06_branch | intros; eapply C06.C06_branch; eassumption ]. Qed.
-Theorem C06_rr_policy : forall must t m,
-  if (has_header (s2b "Record-Route") m || must)%bool then
-    let k := find_record_route_pos (m_headers m) in
-    m_headers (px_add_record_route must t m)
-      = firstn k (m_headers m) ++ own_rr_header t :: skipn k (m_headers m) /\
-    m_start (px_add_record_route must t m) = m_start m /\ m_body (px_add_record_route must t m) = m_body m /\
-    sel (s2b "Record-Route") (m_headers (px_add_record_route must t m))
-      = own_rr_header t :: sel (s2b "Record-Route") (m_headers m) /\
-    all_rr (m_headers (px_add_record_route must t m)) = own_record_route t :: all_rr (m_headers m) /\
-    (forall nm, same_header (s2b "Record-Route") nm = false -> frame nm m (px_add_record_route must t m))
-  else px_add_record_route must t m = m.
-Proof. first [ exact C06.C06_rr_policy | intros; eapply C06.C06_rr_policy; eassumption ]. Qed.
-Theorem C06_rr_position : forall must t m,
-  (has_header (s2b "Record-Route") m || must)%bool = true ->
-  let k := find_record_route_pos (m_headers m) in
-  (k <= List.length (m_headers m))%nat /\
-  nth_error (m_headers (px_add_record_route must t m)) k = Some (own_rr_header t) /\
-  firstn k (m_headers (px_add_record_route must t m)) = firstn k (m_headers m) /\
-  skipn (S k) (m_headers (px_add_record_route must t m)) = skipn k (m_headers m) /\
-  sel (s2b "Record-Route") (firstn k (m_headers m)) = [] /\
-  (has_header (s2b "Record-Route") m = true ->
-     exists h r, skipn k (m_headers m) = h :: r /\ same_header (h_name h) (s2b "Record-Route") = true).
-Proof. first [ exact C06.C06_rr_position | intros; eapply C06.C06_rr_position; eassumption ]. Qed.
-Theorem C06_rr_flat : forall must t m,
-  all_rr (m_headers (px_add_record_route must t m)) =
-  if (has_header (s2b "Record-Route") m || must)%bool then own_record_route t :: all_rr (m_headers m)
-  else all_rr (m_headers m).
-Proof. first [ exact C06.C06_rr_flat | intros; eapply C06.C06_rr_flat; eassumption ]. Qed.
-Theorem C06_own_record_route_text : forall t, t_port t <> 0 ->
-  route_print [own_record_route t] = s2b "<sip:" ++ t_addr t ++ ":"%char :: itoa (t_port t) ++ s2b ";lr>".
-Proof. first [ exact C06.own_record_route_text | intros; eapply C06.own_record_route_text; eassumption ]. Qed.
-Theorem C06_decorate_learned : forall e l host t m,
-  alookup host l = Some t ->
-  all_vias (m_headers (decorate e l host m)) = pushed_via e t :: all_vias (m_headers m) /\
-  all_rr (m_headers (decorate e l host m)) =
-    (if (has_header (s2b "Record-Route") m || pa_must_rr (wire_proxy (e_lc e)))%bool
-     then own_record_route t :: all_rr (m_headers m) else all_rr (m_headers m)) /\
-  m_start (decorate e l host m) = m_start m /\ m_body (decorate e l host m) = m_body m /\
-  (forall nm, same_header (s2b "Via") nm = false -> same_header (s2b "Record-Route") nm = false ->
-              frame nm m (decorate e l host m)).
-Proof. first [ exact C06.C06_decorate_learned | intros; eapply C06.C06_decorate_learned; eassumption ]. Qed.
-Theorem C06_not_learned_untouched : forall e l host m, alookup host l = None -> decorate e l host m = m.
-Proof. first [ exact C06.C06_not_learned_untouched | intros; eapply C06.C06_not_learned_untouched; eassumption ]. Qed.
-Theorem C06_backend_decorates : forall e t0 p m,
-  all_vias (m_headers (backend_message e t0 p m)) = pushed_via e t0 :: all_vias (m_headers m) /\
-  all_rr (m_headers (backend_message e t0 p m)) =
-    (if (has_header (s2b "Record-Route") m || pa_must_rr (wire_proxy (e_lc e)))%bool
-     then own_record_route t0 :: all_rr (m_headers m) else all_rr (m_headers m)).
-Proof. first [ exact C06.C06_backend_decorates | intros; eapply C06.C06_backend_decorates; eassumption ]. Qed.
-Theorem C06_branch_of_inj : forall a b, branch_of a = branch_of b -> a = b.
-Proof. first [ exact C06.branch_of_inj | intros; eapply C06.branch_of_inj; eassumption ]. Qed.
-Theorem C06_branch_of_cookie : forall n, has_prefix (s2b "z9hG4bK") (branch_of n) = true.
-Proof. first [ exact C06.branch_of_cookie | intros; eapply C06.branch_of_cookie; eassumption ]. Qed.
-Theorem C06_branches_distinct : forall e0 n, NoDup (map branch_of (seq e0 n)).
-Proof. first [ exact C06.C06_branches_distinct | intros; eapply C06.C06_branches_distinct; eassumption ]. Qed.
-Theorem C06_learn_lookup : forall k ip t l,
-  alookup k (learn ip t l) =
-  if beq k ip
-  then Some (match alookup ip l with
-             | Some old => if same_transport old t then old else t
-             | None => t
-             end)
-  else alookup k l.
-Proof. first [ exact C06.learn_lookup | intros; eapply C06.learn_lookup; eassumption ]. Qed.
-Theorem C06_learning : forall e peer peer_port from rs tcp m0 x x',
-  process_message e peer peer_port from rs tcp m0 x = Ok x' ->
-  x_learned x' =
-  if (is_request m0 && negb (amem peer (ps_backends (x_p x))))%bool
-  then fold_left (fun l h => learn h from l) (peer :: map v_host (all_vias (m_headers m0))) (x_learned x)
-  else x_learned x.
-Proof. first [ exact C06.C06_learning | intros; eapply C06.C06_learning; eassumption ]. Qed.
-Theorem C06_learning_response : forall e peer peer_port from rs tcp m0 x x',
-  is_request m0 = false ->
-  process_message e peer peer_port from rs tcp m0 x = Ok x' -> x_learned x' = x_learned x.
-Proof. first [ exact C06.C06_learning_response | intros; eapply C06.C06_learning_response; eassumption ]. Qed.
-Theorem C06_relayed_request : forall e peer peer_port from rs tcp m0 x x',
-  is_request m0 = true ->
-  process_message e peer peer_port from rs tcp m0 x = Ok x' ->
-  exists m1 extra, x_outs x' = x_outs x ++ extra /\ (msg_count extra <= 1)%nat /\ via_rel m0 m1 /\
-    let rr_of t := if (has_header (s2b "Record-Route") m0 || pa_must_rr (wire_proxy (e_lc e)))%bool
-                   then own_record_route t :: all_rr (m_headers m0) else all_rr (m_headers m0) in
-    forall o, In o extra -> is_msg o = true ->
-      exists mo, snd o = write_message mo /\
-        match effective_hop (e_cfg e) from m0 with
-        | HopAddr host _ _ =>
-            match alookup host (learned_after peer from m0 x) with
-            | Some t => all_vias (m_headers mo) = pushed_via e t :: all_vias (m_headers m1) /\
-                        all_rr (m_headers mo) = rr_of t
-            | None => all_vias (m_headers mo) = all_vias (m_headers m1) /\
-                      all_rr (m_headers mo) = all_rr (m_headers m0)
-            end
-        | HopBackend =>
-            exists t0, first_transport (e_lc e) = Some t0 /\
-                       all_vias (m_headers mo) = pushed_via e t0 :: all_vias (m_headers m1) /\
-                       all_rr (m_headers mo) = rr_of t0
-        | _ => False
-        end.
-Proof. first [ exact C03.C06_relayed_request | intros; eapply C03.C06_relayed_request; eassumption ]. Qed.
-End P_C06.
-
 (* ------------------------------------------------------------------ TB *)
 From Model Require Import Bytes Wire Uri Hdr Message Msg StaticRoute RoundRobin Pins Proxy RunProxy SpecC14 SpecProxy SpecProxy2 ProxyTB.
 From Model.proofs Require C04 C06 TB.
@@ -2229,3 +1488,1044 @@ Theorem TB_cached_has_port : forall tb fx c h st0 st cache outss li a g cid,
   last_index_byte ":"%char a <> None.
 Proof. first [ exact TB.TB_cached_has_port | intros; eapply TB.TB_cached_has_port; eassumption ]. Qed.
 End P_TB.
+
+(* ------------------------------------------------------------------ C07 *)
+From Model Require Import Bytes Wire Uri Hdr Message Msg StaticRoute RoundRobin Pins Proxy RunProxy SpecC14 SpecProxy SpecProxy2.
+From Model.proofs Require C07 C07_bridge C07_bridge_tcp.
+Section P_C07.
+Import C07 C07_bridge C07_bridge_tcp.
+Theorem C07_judge_bridge_tcp_msg :
+  forall (pc : proxy_case) (stj : jstate) (fx : fixes) (now : Z) (br : bytes) (cid li : nat) (lc : listen_cfg)
+         (cn : conn) (data : bytes) (jin : jmsg) (m : message) (rest : bytes)
+         (x x' : ctx) (pre : list output) (keep : output -> bool) (closed : list nat),
+  let c := pc_cfg pc in
+  let e := mk_env fx c (item_rs_of (fx_wiring fx)) li lc now br in
+  nth_opt (c_listens c) li = Some lc ->
+  find (fun y => Nat.eqb (fst y) cid) (js_conns stj) = Some (cid, (li, cn_peer cn, cn_peer_port cn)) ->
+  cn_from cn = {| t_kind := KTcpListen; t_addr := lc_addr lc; t_port := lc_tcp lc |} ->
+  cn_received_support cn = received_on lc ->
+  j_read data = Some jin -> parse_message data = Ok (m, rest) ->
+  via_domain m ->
+  src_ok (cn_peer cn) -> branch_ok br ->
+  safe1 (lc_addr lc) = true -> 0 <= lc_udp lc <= 65535 -> 0 <= lc_tcp lc <= 65535 ->
+  (forall h t, alookup h (x_learned x) = Some t -> safe1 (t_addr t) = true /\ 0 <= t_port t <= 65535) ->
+  process_message e (cn_peer cn) (cn_peer_port cn) (cn_from cn) (cn_received_support cn) (Some (cn_id cn)) m x
+    = Ok x' ->
+  x_outs x' = x_outs x ++ pre ->
+  judge_C07_event pc stj (EvTcpData cid data) (map lab (filter keep pre)) closed = O.
+Proof. first [ exact C07_bridge_tcp.C07_judge_bridge_tcp_msg | intros; eapply C07_bridge_tcp.C07_judge_bridge_tcp_msg; eassumption ]. Qed.
+Theorem C07_judge_bridge_tcp_step :
+  forall (pc : proxy_case) (stj : jstate) (fx : fixes) (now : Z) (br : bytes) (st : state) (cid li : nat)
+         (lc : listen_cfg) (cn : conn) (data : bytes) (jin : jmsg) (m : message) (rest : bytes)
+         (st' : state) (outs : list output) (keep : output -> bool) (closed : list nat),
+  nth_opt (c_listens (pc_cfg pc)) li = Some lc ->
+  find (fun y => Nat.eqb (cn_id y) cid) (st_conns st) = Some cn ->
+  find (fun y => Nat.eqb (fst y) cid) (js_conns stj) = Some (cid, (li, cn_peer cn, cn_peer_port cn)) ->
+  cn_li cn = li ->
+  cn_from cn = {| t_kind := KTcpListen; t_addr := lc_addr lc; t_port := lc_tcp lc |} ->
+  cn_received_support cn = received_on lc ->
+  j_read data = Some jin -> parse_message data = Ok (m, rest) -> trim_left rest = [] ->
+  via_domain m -> src_ok (cn_peer cn) -> branch_ok br ->
+  safe1 (lc_addr lc) = true -> 0 <= lc_udp lc <= 65535 -> 0 <= lc_tcp lc <= 65535 ->
+  (forall h t, alookup h (st_learned st) = Some t -> safe1 (t_addr t) = true /\ 0 <= t_port t <= 65535) ->
+  proxy_step fx (pc_cfg pc) now br st (EvTcpData cid data) = Ok (st', outs) ->
+  judge_C07_event pc stj (EvTcpData cid data) (map lab (filter keep outs)) closed = O.
+Proof. first [ exact C07_bridge_tcp.C07_judge_bridge_tcp_step | intros; eapply C07_bridge_tcp.C07_judge_bridge_tcp_step; eassumption ]. Qed.
+Theorem C07_stamp : forall peer port m pre h post v rest,
+  m_headers m = pre ++ h :: post -> nomatch VIA pre -> same_header (h_name h) VIA = true ->
+  hval_vias (h_val h) = Some (v :: rest) ->
+  s_set_received peer port m =
+    ({| m_start := m_start m;
+        m_headers := pre ++ {| h_name := h_name h; h_val := HVia (stamp peer port v :: rest) |} :: post;
+        m_body := m_body m |}, Ok tt).
+Proof. first [ exact C07.C07_stamp | intros; eapply C07.C07_stamp; eassumption ]. Qed.
+Theorem C07_stamp_params : forall peer port v,
+  v_params (stamp peer port v) =
+    (if kv_has (s2b "rport") (kv_set (s2b "received") peer (v_params v))
+     then kv_set (s2b "rport") (itoa port) (kv_set (s2b "received") peer (v_params v))
+     else kv_set (s2b "received") peer (v_params v)) /\
+  v_name (stamp peer port v) = v_name v /\ v_version (stamp peer port v) = v_version v /\
+  v_transport (stamp peer port v) = v_transport v /\ v_host (stamp peer port v) = v_host v /\
+  v_port (stamp peer port v) = v_port v.
+Proof. first [ exact C07.C07_stamp_params | intros; eapply C07.C07_stamp_params; eassumption ]. Qed.
+Theorem C07_kv_set_char : forall k v l,
+  kv_get k (kv_set k v l) = Some v /\
+  (forall k', k' <> k -> kv_get k' (kv_set k v l) = kv_get k' l) /\
+  filter (fun p => negb (beq (k_key p) k)) (kv_set k v l) = filter (fun p => negb (beq (k_key p) k)) l /\
+  (kv_has k l = true -> exists a p b, l = a ++ p :: b /\ k_key p = k /\ kv_get k a = None /\
+                                      kv_set k v l = a ++ {| k_key := k_key p; k_val := v |} :: b) /\
+  (kv_has k l = false -> kv_set k v l = l ++ [{| k_key := k; k_val := v |}]).
+Proof. first [ exact C07.C07_kv_set_char | intros; eapply C07.C07_kv_set_char; eassumption ]. Qed.
+Theorem C07_pipeline : forall e peer port from rs tcp m0 x x',
+  is_request m0 = true ->
+  process_message e peer port from rs tcp m0 x = Ok x' ->
+  exists outs, x_outs x' = x_outs x ++ outs /\
+               Forall (relayed_as (e_branch e) (stamp_hdrs rs peer port (via_hdrs m0))) outs.
+Proof. first [ exact C07.C07_pipeline | intros; eapply C07.C07_pipeline; eassumption ]. Qed.
+Theorem C07_wiring : forall lc,
+  item_rs_of true lc = negb (lc_no_received lc) /\
+  pa_received_support (wire_proxy lc) = negb (lc_no_received lc).
+Proof. first [ exact C07.C07_wiring | intros; eapply C07.C07_wiring; eassumption ]. Qed.
+Theorem C07_wiring_legacy : forall lc, item_rs_of false lc = lc_def_route lc.
+Proof. first [ exact C07.C07_wiring_legacy | intros; eapply C07.C07_wiring_legacy; eassumption ]. Qed.
+Theorem C07_wired_reachable : forall fx c st, fx_wiring fx = true -> reachable fx c st -> wired c (st_conns st).
+Proof. first [ exact C07.C07_wired_reachable | intros; eapply C07.C07_wired_reachable; eassumption ]. Qed.
+Theorem C07_step_udp : forall fx c now br st li src sport data lc m rest st' outs,
+  nth_opt (c_listens c) li = Some lc -> parse_message data = Ok (m, rest) -> is_request m = true ->
+  proxy_step fx c now br st (EvUdp li src sport data) = Ok (st', outs) ->
+  Forall (relayed_as br (stamp_hdrs (item_rs_of (fx_wiring fx) lc) src sport (via_hdrs m))) outs.
+Proof. first [ exact C07.C07_step_udp | intros; eapply C07.C07_step_udp; eassumption ]. Qed.
+Theorem C07_step_tcp : forall fx c now br st cid data cn lc st' outs,
+  find (fun x => Nat.eqb (cn_id x) cid) (st_conns st) = Some cn ->
+  nth_opt (c_listens c) (cn_li cn) = Some lc ->
+  proxy_step fx c now br st (EvTcpData cid data) = Ok (st', outs) ->
+  exists oss, outs = List.concat oss /\
+    Forall2 (fun m os => is_request m = true ->
+               Forall (relayed_as br (stamp_hdrs (cn_received_support cn) (cn_peer cn) (cn_peer_port cn) (via_hdrs m))) os)
+            (firstn (List.length oss) (parse_stream (S (List.length data)) data)) oss.
+Proof. first [ exact C07.C07_step_tcp | intros; eapply C07.C07_step_tcp; eassumption ]. Qed.
+Theorem C07_judge_bridge_udp :
+  forall (pc : proxy_case) (st : jstate) (fx : fixes) (now : Z) (br : bytes) (li : nat) (lc : listen_cfg)
+         (src : bytes) (sport : Z) (data : bytes) (jin : jmsg) (m : message) (rest : bytes)
+         (x x' : ctx) (pre : list output) (keep : output -> bool) (closed : list nat),
+  let c := pc_cfg pc in
+  let e := mk_env fx c (item_rs_of (fx_wiring fx)) li lc now br in
+  fx_wiring fx = true ->
+  nth_opt (c_listens c) li = Some lc ->
+  j_read data = Some jin -> parse_message data = Ok (m, rest) ->
+  via_domain m ->
+  src_ok src -> branch_ok br ->
+  safe1 (lc_addr lc) = true -> 0 <= lc_udp lc <= 65535 -> 0 <= lc_tcp lc <= 65535 ->
+  (forall h t, alookup h (x_learned x) = Some t -> safe1 (t_addr t) = true /\ 0 <= t_port t <= 65535) ->
+  process_message e src sport {| t_kind := KUdp; t_addr := lc_addr lc; t_port := lc_udp lc |}
+                  (e_item_rs e) None m x = Ok x' ->
+  x_outs x' = x_outs x ++ pre ->
+  judge_C07_event pc st (EvUdp li src sport data) (map lab (filter keep pre)) closed = O.
+Proof. first [ exact C07_bridge.C07_judge_bridge_udp | intros; eapply C07_bridge.C07_judge_bridge_udp; eassumption ]. Qed.
+Theorem C07_judge_bridge_step :
+  forall (pc : proxy_case) (stj : jstate) (fx : fixes) (now : Z) (br : bytes) (st : state) (li : nat)
+         (lc : listen_cfg) (src : bytes) (sport : Z) (data : bytes) (jin : jmsg) (m : message) (rest : bytes)
+         (st' : state) (outs : list output) (keep : output -> bool) (closed : list nat),
+  fx_wiring fx = true -> nth_opt (c_listens (pc_cfg pc)) li = Some lc ->
+  j_read data = Some jin -> parse_message data = Ok (m, rest) ->
+  via_domain m -> src_ok src -> branch_ok br ->
+  safe1 (lc_addr lc) = true -> 0 <= lc_udp lc <= 65535 -> 0 <= lc_tcp lc <= 65535 ->
+  (forall h t, alookup h (st_learned st) = Some t -> safe1 (t_addr t) = true /\ 0 <= t_port t <= 65535) ->
+  proxy_step fx (pc_cfg pc) now br st (EvUdp li src sport data) = Ok (st', outs) ->
+  judge_C07_event pc stj (EvUdp li src sport data) (map lab (filter keep outs)) closed = O.
+Proof. first [ exact C07_bridge.C07_judge_bridge_step | intros; eapply C07_bridge.C07_judge_bridge_step; eassumption ]. Qed.
+End P_C07.
+
+(* ------------------------------------------------------------------ C13 *)
+From Model Require Import Bytes Wire Uri Hdr Message Msg StaticRoute RoundRobin Pins Proxy RunProxy SpecC14 SpecProxy SpecProxy2.
+From Model.proofs Require C06 C13 C13_bridge C13_bridge_tcp.
+Section P_C13.
+Import C06 C13 C13_bridge C13_bridge_tcp.
+Theorem C13_judge_bridge_tcp_msg :
+  forall pc stj cid li lc cn data closed jin m rest e x x',
+  nth_opt (c_listens (pc_cfg pc)) li = Some lc -> e_cfg e = pc_cfg pc -> e_lc e = lc ->
+  find (fun x => Nat.eqb (fst x) cid) (js_conns stj) = Some (cid, (li, cn_peer cn, cn_peer_port cn)) ->
+  cn_li cn = li -> cn_id cn = cid ->
+  cn_from cn = {| t_kind := KTcpListen; t_addr := lc_addr lc; t_port := lc_tcp lc |} ->
+  j_read data = Some jin -> parse_message data = Ok (m, rest) -> trim_left rest = [] ->
+  is_request m = true ->
+  route_domain_in (RS m) ->
+  B7.via_domain m -> B7.src_ok (cn_peer cn) -> B7.branch_ok (e_branch e) ->
+  safe1 (lc_addr lc) = true -> (0 <= lc_udp lc <= 65535)%Z -> (0 <= lc_tcp lc <= 65535)%Z ->
+  (forall h t, alookup h (x_learned x) = Some t -> safe1 (t_addr t) = true /\ (0 <= t_port t <= 65535)%Z) ->
+  process_message e (cn_peer cn) (cn_peer_port cn) (cn_from cn) (cn_received_support cn) (Some (cn_id cn)) m x = Ok x' ->
+  exists pre, x_outs x' = x_outs x ++ pre /\ (msg_count pre <= 1)%nat /\
+    forall vis, judge_C13_event pc stj (EvTcpData cid data) (map labelled (filter vis pre)) closed = 0%nat.
+Proof. first [ exact C13_bridge_tcp.C13_judge_bridge_tcp_msg | intros; eapply C13_bridge_tcp.C13_judge_bridge_tcp_msg; eassumption ]. Qed.
+Theorem C13_judge_bridge_tcp_step :
+  forall pc stj fx now br st st' outs cid li lc cn data closed jin m rest,
+  nth_opt (c_listens (pc_cfg pc)) li = Some lc ->
+  find (fun x => Nat.eqb (fst x) cid) (js_conns stj) = Some (cid, (li, cn_peer cn, cn_peer_port cn)) ->
+  find (fun x => Nat.eqb (cn_id x) cid) (st_conns st) = Some cn ->
+  cn_li cn = li ->
+  cn_from cn = {| t_kind := KTcpListen; t_addr := lc_addr lc; t_port := lc_tcp lc |} ->
+  j_read data = Some jin -> parse_message data = Ok (m, rest) -> trim_left rest = [] ->
+  is_request m = true ->
+  route_domain_in (RS m) ->
+  B7.via_domain m -> B7.src_ok (cn_peer cn) -> B7.branch_ok br ->
+  safe1 (lc_addr lc) = true -> (0 <= lc_udp lc <= 65535)%Z -> (0 <= lc_tcp lc <= 65535)%Z ->
+  (forall h t, alookup h (st_learned st) = Some t -> safe1 (t_addr t) = true /\ (0 <= t_port t <= 65535)%Z) ->
+  proxy_step fx (pc_cfg pc) now br st (EvTcpData cid data) = Ok (st', outs) ->
+  forall vis, judge_C13_event pc stj (EvTcpData cid data) (map labelled (filter vis outs)) closed = 0%nat.
+Proof. first [ exact C13_bridge_tcp.C13_judge_bridge_tcp_step | intros; eapply C13_bridge_tcp.C13_judge_bridge_tcp_step; eassumption ]. Qed.
+Theorem C13_route_headers : forall e peer peer_port from rs tcp m0 x x',
+  is_request m0 = true ->
+  process_message e peer peer_port from rs tcp m0 x = Ok x' ->
+  exists extra, x_outs x' = x_outs x ++ extra /\ (msg_count extra <= 1)%nat /\
+    forall o, In o extra -> is_msg o = true ->
+      exists mo, snd o = write_message mo /\
+                 routed (fun hs => step_next (c_keep_next_hop (e_cfg e)) (step_own (e_cfg e) from hs)) m0 mo.
+Proof. first [ exact C13_bridge.C13_route_headers | intros; eapply C13_bridge.C13_route_headers; eassumption ]. Qed.
+Theorem C13_judge_bridge_udp :
+  forall pc st li lc src sport data closed jin m rest e rs x x',
+  nth_opt (c_listens (pc_cfg pc)) li = Some lc -> e_cfg e = pc_cfg pc -> e_lc e = lc ->
+  j_read data = Some jin -> parse_message data = Ok (m, rest) ->
+  is_request m = true ->
+  route_domain_in (RS m) ->
+  B7.via_domain m -> B7.src_ok src -> B7.branch_ok (e_branch e) ->
+  safe1 (lc_addr lc) = true -> (0 <= lc_udp lc <= 65535)%Z -> (0 <= lc_tcp lc <= 65535)%Z ->
+  (forall h t, alookup h (x_learned x) = Some t -> safe1 (t_addr t) = true /\ (0 <= t_port t <= 65535)%Z) ->
+  process_message e src sport (udp_transport lc) rs None m x = Ok x' ->
+  exists pre, x_outs x' = x_outs x ++ pre /\ (msg_count pre <= 1)%nat /\
+    forall vis, judge_C13_event pc st (EvUdp li src sport data) (map labelled (filter vis pre)) closed = 0%nat.
+Proof. first [ exact C13_bridge.C13_judge_bridge_udp | intros; eapply C13_bridge.C13_judge_bridge_udp; eassumption ]. Qed.
+Theorem C13_judge_bridge_step :
+  forall pc stj fx now br st st' outs li lc src sport data closed jin m rest,
+  nth_opt (c_listens (pc_cfg pc)) li = Some lc ->
+  j_read data = Some jin -> parse_message data = Ok (m, rest) ->
+  is_request m = true ->
+  route_domain_in (RS m) ->
+  B7.via_domain m -> B7.src_ok src -> B7.branch_ok br ->
+  safe1 (lc_addr lc) = true -> (0 <= lc_udp lc <= 65535)%Z -> (0 <= lc_tcp lc <= 65535)%Z ->
+  (forall h t, alookup h (st_learned st) = Some t -> safe1 (t_addr t) = true /\ (0 <= t_port t <= 65535)%Z) ->
+  proxy_step fx (pc_cfg pc) now br st (EvUdp li src sport data) = Ok (st', outs) ->
+  forall vis, judge_C13_event pc stj (EvUdp li src sport data) (map labelled (filter vis outs)) closed = 0%nat.
+Proof. first [ exact C13_bridge.C13_judge_bridge_step | intros; eapply C13_bridge.C13_judge_bridge_step; eassumption ]. Qed.
+Theorem C13_own_popped_iff : forall c from m,
+  route_view (fst (mtry (try_remove_top_route c from) m)) =
+  match route_view m with
+  | EDec e1 :: rest => if designates c from e1 then rest else route_view m
+  | _ => route_view m
+  end.
+Proof. first [ exact C13.try_remove_top_route_pops_iff_own | intros; eapply C13.try_remove_top_route_pops_iff_own; eassumption ]. Qed.
+Theorem C13_next_hop_popped_iff_not_keep : forall keep m,
+  match route_view m with
+  | EDec rp :: rest =>
+      route_view (fst (next_hop_by_route keep m)) = (if keep then EDec rp :: rest else rest) /\
+      snd (next_hop_by_route keep m) =
+        match na_addr (r_addr rp) with
+        | ASip u => Ok (u_host u, sip_uri_get_port u, sip_uri_transport u)
+        | AAbs _ => Err
+        end
+  | _ => route_view (fst (next_hop_by_route keep m)) = route_view m /\ is_ok (snd (next_hop_by_route keep m)) = false
+  end.
+Proof. first [ exact C13.next_hop_by_route_pops_iff_not_keep | intros; eapply C13.next_hop_by_route_pops_iff_not_keep; eassumption ]. Qed.
+Theorem C13_route : forall e peer peer_port from rs tcp m0 x x',
+  is_request m0 = true ->
+  process_message e peer peer_port from rs tcp m0 x = Ok x' ->
+  exists extra, x_outs x' = x_outs x ++ extra /\ (msg_count extra <= 1)%nat /\
+    forall o, In o extra -> is_msg o = true ->
+      exists mo, snd o = write_message mo /\
+                 route_view mo = skipn (route_consumed (e_cfg e) from (c_keep_next_hop (e_cfg e)) (route_view m0))
+                                       (route_view m0).
+Proof. first [ exact C13.C13_route | intros; eapply C13.C13_route; eassumption ]. Qed.
+Theorem C13_route_decoded : forall e peer peer_port from rs tcp m0 x x' entries,
+  is_request m0 = true ->
+  route_view m0 = map EDec entries ->
+  process_message e peer peer_port from rs tcp m0 x = Ok x' ->
+  let own := own_of (e_cfg e) from entries in
+  let remaining := if own then tl entries else entries in
+  let k := ((if own then 1 else 0) +
+            (match remaining with _ :: _ => if c_keep_next_hop (e_cfg e) then 0 else 1 | [] => 0 end))%nat in
+  exists extra, x_outs x' = x_outs x ++ extra /\ (msg_count extra <= 1)%nat /\
+    forall o, In o extra -> is_msg o = true ->
+      exists mo, snd o = write_message mo /\ route_view mo = map EDec (skipn k entries).
+Proof. first [ exact C13.C13_route_decoded | intros; eapply C13.C13_route_decoded; eassumption ]. Qed.
+Theorem C13_route_view_grammar : forall l, l <> [] -> forallb wf_relem l = true ->
+  hval_entries (HRaw (rp_route l)) = map EDec (map C14_hdr.embed_relem l).
+Proof. first [ exact C13.route_view_grammar | intros; eapply C13.route_view_grammar; eassumption ]. Qed.
+Theorem C13_route_header_text : forall l, forallb wf_relem l = true ->
+  hval_print (HRoute (map C14_hdr.embed_relem l)) = rp_route l.
+Proof. first [ exact C13.route_header_text | intros; eapply C13.route_header_text; eassumption ]. Qed.
+Theorem C13_keep_setting_decides : forall setting env, setting <> [] ->
+  to_keep_next_hop_route setting env = truthy setting.
+Proof. first [ exact C13.C13_keep_setting_decides | intros; eapply C13.C13_keep_setting_decides; eassumption ]. Qed.
+Theorem C13_keep_env_default : forall env, to_keep_next_hop_route [] env = truthy env.
+Proof. first [ exact C13.C13_keep_env_default | intros; eapply C13.C13_keep_env_default; eassumption ]. Qed.
+End P_C13.
+
+(* ------------------------------------------------------------------ C02 *)
+From Model Require Import Bytes Wire Uri Hdr Message Msg StaticRoute RoundRobin Pins Proxy RunProxy SpecC14 SpecProxy SpecProxy2.
+From Model.proofs Require C06 C13_bridge C07_bridge C07 C02 C02_bridge C02_bridge_tcp.
+Section P_C02.
+Import C06 C13_bridge C07_bridge C07 C02 C02_bridge C02_bridge_tcp.
+Theorem C02_judge_bridge_tcp_core_msg :
+  forall (pc : proxy_case) (stj : jstate) (e : env) (cid : nat) (peer : bytes) (pport : Z) (from : stransport)
+         (rs : bool) (tcp : option nat) (data : bytes) (jin : jmsg) (m : message) (rest : bytes)
+         (x x' : ctx) (pre : list output) (vis : output -> bool) (closed : list nat),
+  j_read data = Some jin -> parse_message data = Ok (m, rest) ->
+  via_domain m ->
+  process_message e peer pport from rs tcp m x = Ok x' ->
+  x_outs x' = x_outs x ++ pre ->
+  (forall v1 v2 vrest m4 pins',
+     is_response m = true ->
+     flat_view (via_hdrs m) = v1 :: v2 :: vrest ->
+     x_outs x ++ pre = x_outs (fst (send_message e (hop_host v2) (hop_port v2) (v_transport v2) m4
+                                      (pins_ctx x pins'))) ->
+     write_message (sent_msg m4) = write_message (relayed_response e peer pport from x m) ->
+     dest_ok pc stj (j_dest (pc_cfg pc) (v_transport v2) (hop_host v2) (hop_port v2))
+             (msgs_of (map B13.labelled (filter vis pre))) = true) ->
+  judge_C02_event pc stj (EvTcpData cid data) (map B13.labelled (filter vis pre)) closed = O.
+Proof. first [ exact C02_bridge_tcp.C02_judge_bridge_tcp_core_msg | intros; eapply C02_bridge_tcp.C02_judge_bridge_tcp_core_msg; eassumption ]. Qed.
+Theorem C02_judge_bridge_tcp_core_step :
+  forall (pc : proxy_case) (stj : jstate) (fx : fixes) (now : Z) (br : bytes) (st : state) (cid : nat)
+         (lc : listen_cfg) (cn : conn) (p : pstate) (data : bytes) (jin : jmsg) (m : message) (rest : bytes)
+         (st' : state) (outs : list output) (vis : output -> bool) (closed : list nat),
+  find (fun y => Nat.eqb (cn_id y) cid) (st_conns st) = Some cn -> cn_open cn = true ->
+  nth_opt (c_listens (pc_cfg pc)) (cn_li cn) = Some lc -> nth_p (st_proxies st) (cn_li cn) = Some p ->
+  j_read data = Some jin -> parse_message data = Ok (m, rest) -> trim_left rest = [] ->
+  via_domain m ->
+  proxy_step fx (pc_cfg pc) now br st (EvTcpData cid data) = Ok (st', outs) ->
+  (forall v1 v2 vrest m4 pins',
+     is_response m = true ->
+     flat_view (via_hdrs m) = v1 :: v2 :: vrest ->
+     outs = x_outs (fst (send_message (step_env fx (pc_cfg pc) (cn_li cn) lc now br) (hop_host v2) (hop_port v2)
+                           (v_transport v2) m4 (pin_ctx st p pins'))) ->
+     write_message (sent_msg m4) = relayed_bytes_tcp fx (pc_cfg pc) now br st lc p cn m ->
+     dest_ok pc stj (j_dest (pc_cfg pc) (v_transport v2) (hop_host v2) (hop_port v2))
+             (msgs_of (map B13.labelled (filter vis outs))) = true) ->
+  judge_C02_event pc stj (EvTcpData cid data) (map B13.labelled (filter vis outs)) closed = O.
+Proof. first [ exact C02_bridge_tcp.C02_judge_bridge_tcp_core_step | intros; eapply C02_bridge_tcp.C02_judge_bridge_tcp_core_step; eassumption ]. Qed.
+Theorem C02_judge_bridge_tcp_step_udp :
+  forall (pc : proxy_case) (stj : jstate) (fx : fixes) (now : Z) (br : bytes) (st : state) (cid : nat)
+         (lc : listen_cfg) (cn : conn) (p : pstate) (data : bytes) (jin : jmsg) (m : message) (rest : bytes)
+         (st' : state) (outs : list output) (closed : list nat)
+         (v1 v2 : via_param) (vrest : list via_param) (ip : bytes),
+  find (fun y => Nat.eqb (cn_id y) cid) (st_conns st) = Some cn -> cn_open cn = true ->
+  nth_opt (c_listens (pc_cfg pc)) (cn_li cn) = Some lc -> nth_p (st_proxies st) (cn_li cn) = Some p ->
+  j_read data = Some jin -> parse_message data = Ok (m, rest) -> trim_left rest = [] ->
+  via_domain m ->
+  flat_view (via_hdrs m) = v1 :: v2 :: vrest ->
+  to_lower (v_transport v2) = s2b "udp" ->
+  get_ip (pc_cfg pc) (hop_host v2) = Some ip -> resolvable ip (hop_port v2) = true ->
+  udp_slot_ok ip (hop_port v2) p ->
+  fits_datagram (relayed_bytes_tcp fx (pc_cfg pc) now br st lc p cn m) = true ->
+  proxy_step fx (pc_cfg pc) now br st (EvTcpData cid data) = Ok (st', outs) ->
+  judge_C02_event pc stj (EvTcpData cid data)
+    (map B13.labelled (filter (visible (pc_udp_endpoints pc)) outs)) closed = O.
+Proof. first [ exact C02_bridge_tcp.C02_judge_bridge_tcp_step_udp | intros; eapply C02_bridge_tcp.C02_judge_bridge_tcp_step_udp; eassumption ]. Qed.
+Theorem C02_judge_bridge_tcp_step_drop :
+  forall (pc : proxy_case) (stj : jstate) (fx : fixes) (now : Z) (br : bytes) (st : state) (cid : nat)
+         (lc : listen_cfg) (cn : conn) (p : pstate) (data : bytes) (jin : jmsg) (m : message) (rest : bytes)
+         (st' : state) (outs : list output) (vis : output -> bool) (closed : list nat),
+  find (fun y => Nat.eqb (cn_id y) cid) (st_conns st) = Some cn -> cn_open cn = true ->
+  nth_opt (c_listens (pc_cfg pc)) (cn_li cn) = Some lc -> nth_p (st_proxies st) (cn_li cn) = Some p ->
+  j_read data = Some jin -> parse_message data = Ok (m, rest) -> trim_left rest = [] ->
+  via_domain m ->
+  (List.length (flat_view (via_hdrs m)) <= 1)%nat ->
+  proxy_step fx (pc_cfg pc) now br st (EvTcpData cid data) = Ok (st', outs) ->
+  judge_C02_event pc stj (EvTcpData cid data) (map B13.labelled (filter vis outs)) closed = O.
+Proof. first [ exact C02_bridge_tcp.C02_judge_bridge_tcp_step_drop | intros; eapply C02_bridge_tcp.C02_judge_bridge_tcp_step_drop; eassumption ]. Qed.
+Theorem C02_judge_bridge_tcp_step_tcp_sent :
+  forall (pc : proxy_case) (stj : jstate) (fx : fixes) (now : Z) (br : bytes) (st : state) (cid : nat)
+         (lc : listen_cfg) (cn : conn) (p : pstate) (data : bytes) (jin : jmsg) (m : message) (rest : bytes)
+         (st' : state) (outs : list output) (closed : list nat)
+         (v1 v2 : via_param) (vrest : list via_param) (ip : bytes),
+  find (fun y => Nat.eqb (cn_id y) cid) (st_conns st) = Some cn -> cn_open cn = true ->
+  nth_opt (c_listens (pc_cfg pc)) (cn_li cn) = Some lc -> nth_p (st_proxies st) (cn_li cn) = Some p ->
+  j_read data = Some jin -> parse_message data = Ok (m, rest) -> trim_left rest = [] ->
+  via_domain m ->
+  flat_view (via_hdrs m) = v1 :: v2 :: vrest ->
+  to_lower (v_transport v2) = s2b "tcp" ->
+  get_ip (pc_cfg pc) (hop_host v2) = Some ip ->
+  fx_udp_via_listener fx = true -> tcp_slot_ok p ->
+  proxy_step fx (pc_cfg pc) now br st (EvTcpData cid data) = Ok (st', outs) ->
+  filter C06.is_msg outs <> [] ->
+  judge_C02_event pc stj (EvTcpData cid data)
+    (map B13.labelled (filter (visible (pc_udp_endpoints pc)) outs)) closed = O.
+Proof. first [ exact C02_bridge_tcp.C02_judge_bridge_tcp_step_tcp_sent | intros; eapply C02_bridge_tcp.C02_judge_bridge_tcp_step_tcp_sent; eassumption ]. Qed.
+Theorem C02_judge_bridge_tcp_step_tcp_fresh :
+  forall (pc : proxy_case) (stj : jstate) (fx : fixes) (now : Z) (br : bytes) (st : state) (cid : nat)
+         (lc : listen_cfg) (cn : conn) (p : pstate) (data : bytes) (jin : jmsg) (m : message) (rest : bytes)
+         (st' : state) (outs : list output) (closed : list nat)
+         (v1 v2 : via_param) (vrest : list via_param) (ip : bytes),
+  tcp_agree pc stj st ip (hop_port v2) ->
+  find (fun y => Nat.eqb (cn_id y) cid) (st_conns st) = Some cn -> cn_open cn = true ->
+  nth_opt (c_listens (pc_cfg pc)) (cn_li cn) = Some lc -> nth_p (st_proxies st) (cn_li cn) = Some p ->
+  j_read data = Some jin -> parse_message data = Ok (m, rest) -> trim_left rest = [] ->
+  via_domain m ->
+  flat_view (via_hdrs m) = v1 :: v2 :: vrest ->
+  to_lower (v_transport v2) = s2b "tcp" ->
+  get_ip (pc_cfg pc) (hop_host v2) = Some ip ->
+  fx_udp_via_listener fx = true -> tcp_fresh ip (hop_port v2) p ->
+  proxy_step fx (pc_cfg pc) now br st (EvTcpData cid data) = Ok (st', outs) ->
+  judge_C02_event pc stj (EvTcpData cid data)
+    (map B13.labelled (filter (visible (pc_udp_endpoints pc)) outs)) closed = O.
+Proof. first [ exact C02_bridge_tcp.C02_judge_bridge_tcp_step_tcp_fresh | intros; eapply C02_bridge_tcp.C02_judge_bridge_tcp_step_tcp_fresh; eassumption ]. Qed.
+Theorem C02_judge_bridge_core :
+  forall (pc : proxy_case) (stj : jstate) (fx : fixes) (now : Z) (br : bytes) (st : state) (li : nat)
+         (lc : listen_cfg) (src : bytes) (sport : Z) (data : bytes) (jin : jmsg) (m : message) (rest : bytes)
+         (p : pstate) (st' : state) (outs : list output) (vis : output -> bool) (closed : list nat),
+  nth_opt (c_listens (pc_cfg pc)) li = Some lc -> nth_p (st_proxies st) li = Some p ->
+  j_read data = Some jin -> parse_message data = Ok (m, rest) ->
+  via_domain m ->
+  proxy_step fx (pc_cfg pc) now br st (EvUdp li src sport data) = Ok (st', outs) ->
+  (forall v1 v2 vrest m4 pins',
+     is_response m = true ->
+     flat_view (via_hdrs m) = v1 :: v2 :: vrest ->
+     outs = x_outs (fst (send_message (step_env fx (pc_cfg pc) li lc now br) (hop_host v2) (hop_port v2)
+                           (v_transport v2) m4 (pin_ctx st p pins'))) ->
+     write_message (sent_msg m4) = relayed_bytes fx (pc_cfg pc) now br st li lc p src sport m ->
+     dest_ok pc stj (j_dest (pc_cfg pc) (v_transport v2) (hop_host v2) (hop_port v2))
+             (msgs_of (map B13.labelled (filter vis outs))) = true) ->
+  judge_C02_event pc stj (EvUdp li src sport data) (map B13.labelled (filter vis outs)) closed = O.
+Proof. first [ exact C02_bridge.C02_judge_bridge_core | intros; eapply C02_bridge.C02_judge_bridge_core; eassumption ]. Qed.
+Theorem C02_judge_bridge_step_udp :
+  forall (pc : proxy_case) (stj : jstate) (fx : fixes) (now : Z) (br : bytes) (st : state) (li : nat)
+         (lc : listen_cfg) (src : bytes) (sport : Z) (data : bytes) (jin : jmsg) (m : message) (rest : bytes)
+         (p : pstate) (st' : state) (outs : list output) (closed : list nat)
+         (v1 v2 : via_param) (vrest : list via_param) (ip : bytes),
+  nth_opt (c_listens (pc_cfg pc)) li = Some lc -> nth_p (st_proxies st) li = Some p ->
+  j_read data = Some jin -> parse_message data = Ok (m, rest) ->
+  via_domain m ->
+  flat_view (via_hdrs m) = v1 :: v2 :: vrest ->
+  to_lower (v_transport v2) = s2b "udp" ->
+  get_ip (pc_cfg pc) (hop_host v2) = Some ip -> resolvable ip (hop_port v2) = true ->
+  udp_slot_ok ip (hop_port v2) p ->
+  fits_datagram (relayed_bytes fx (pc_cfg pc) now br st li lc p src sport m) = true ->
+  proxy_step fx (pc_cfg pc) now br st (EvUdp li src sport data) = Ok (st', outs) ->
+  judge_C02_event pc stj (EvUdp li src sport data)
+    (map B13.labelled (filter (visible (pc_udp_endpoints pc)) outs)) closed = O.
+Proof. first [ exact C02_bridge.C02_judge_bridge_step_udp | intros; eapply C02_bridge.C02_judge_bridge_step_udp; eassumption ]. Qed.
+Theorem C02_judge_bridge_step_drop :
+  forall (pc : proxy_case) (stj : jstate) (fx : fixes) (now : Z) (br : bytes) (st : state) (li : nat)
+         (lc : listen_cfg) (src : bytes) (sport : Z) (data : bytes) (jin : jmsg) (m : message) (rest : bytes)
+         (p : pstate) (st' : state) (outs : list output) (vis : output -> bool) (closed : list nat),
+  nth_opt (c_listens (pc_cfg pc)) li = Some lc -> nth_p (st_proxies st) li = Some p ->
+  j_read data = Some jin -> parse_message data = Ok (m, rest) ->
+  via_domain m ->
+  (List.length (flat_view (via_hdrs m)) <= 1)%nat ->
+  proxy_step fx (pc_cfg pc) now br st (EvUdp li src sport data) = Ok (st', outs) ->
+  judge_C02_event pc stj (EvUdp li src sport data) (map B13.labelled (filter vis outs)) closed = O.
+Proof. first [ exact C02_bridge.C02_judge_bridge_step_drop | intros; eapply C02_bridge.C02_judge_bridge_step_drop; eassumption ]. Qed.
+Theorem C02_judge_bridge_step_unsupported :
+  forall (pc : proxy_case) (stj : jstate) (fx : fixes) (now : Z) (br : bytes) (st : state) (li : nat)
+         (lc : listen_cfg) (src : bytes) (sport : Z) (data : bytes) (jin : jmsg) (m : message) (rest : bytes)
+         (p : pstate) (st' : state) (outs : list output) (vis : output -> bool) (closed : list nat)
+         (v1 v2 : via_param) (vrest : list via_param),
+  nth_opt (c_listens (pc_cfg pc)) li = Some lc -> nth_p (st_proxies st) li = Some p ->
+  j_read data = Some jin -> parse_message data = Ok (m, rest) ->
+  via_domain m ->
+  flat_view (via_hdrs m) = v1 :: v2 :: vrest ->
+  supported_proto (to_lower (v_transport v2)) = false ->
+  proxy_step fx (pc_cfg pc) now br st (EvUdp li src sport data) = Ok (st', outs) ->
+  judge_C02_event pc stj (EvUdp li src sport data) (map B13.labelled (filter vis outs)) closed = O.
+Proof. first [ exact C02_bridge.C02_judge_bridge_step_unsupported | intros; eapply C02_bridge.C02_judge_bridge_step_unsupported; eassumption ]. Qed.
+Theorem C02_judge_bridge_step_unresolved :
+  forall (pc : proxy_case) (stj : jstate) (fx : fixes) (now : Z) (br : bytes) (st : state) (li : nat)
+         (lc : listen_cfg) (src : bytes) (sport : Z) (data : bytes) (jin : jmsg) (m : message) (rest : bytes)
+         (p : pstate) (st' : state) (outs : list output) (vis : output -> bool) (closed : list nat)
+         (v1 v2 : via_param) (vrest : list via_param),
+  nth_opt (c_listens (pc_cfg pc)) li = Some lc -> nth_p (st_proxies st) li = Some p ->
+  j_read data = Some jin -> parse_message data = Ok (m, rest) ->
+  via_domain m ->
+  flat_view (via_hdrs m) = v1 :: v2 :: vrest ->
+  get_ip (pc_cfg pc) (hop_host v2) = None ->
+  proxy_step fx (pc_cfg pc) now br st (EvUdp li src sport data) = Ok (st', outs) ->
+  judge_C02_event pc stj (EvUdp li src sport data) (map B13.labelled (filter vis outs)) closed = O.
+Proof. first [ exact C02_bridge.C02_judge_bridge_step_unresolved | intros; eapply C02_bridge.C02_judge_bridge_step_unresolved; eassumption ]. Qed.
+Theorem C02_judge_bridge_step_tcp_partial :
+  forall (pc : proxy_case) (stj : jstate) (fx : fixes) (now : Z) (br : bytes) (st : state) (li : nat)
+         (lc : listen_cfg) (src : bytes) (sport : Z) (data : bytes) (jin : jmsg) (m : message) (rest : bytes)
+         (p : pstate) (st' : state) (outs : list output) (closed : list nat)
+         (v1 v2 : via_param) (vrest : list via_param) (ip : bytes),
+  nth_opt (c_listens (pc_cfg pc)) li = Some lc -> nth_p (st_proxies st) li = Some p ->
+  j_read data = Some jin -> parse_message data = Ok (m, rest) ->
+  via_domain m ->
+  flat_view (via_hdrs m) = v1 :: v2 :: vrest ->
+  to_lower (v_transport v2) = s2b "tcp" ->
+  get_ip (pc_cfg pc) (hop_host v2) = Some ip ->
+  fx_udp_via_listener fx = true -> tcp_slot_ok p ->
+  proxy_step fx (pc_cfg pc) now br st (EvUdp li src sport data) = Ok (st', outs) ->
+  tcp_quiet_ok pc stj ip (hop_port v2) outs ->
+  judge_C02_event pc stj (EvUdp li src sport data)
+    (map B13.labelled (filter (visible (pc_udp_endpoints pc)) outs)) closed = O.
+Proof. first [ exact C02_bridge.C02_judge_bridge_step_tcp_partial | intros; eapply C02_bridge.C02_judge_bridge_step_tcp_partial; eassumption ]. Qed.
+Theorem C02_judge_bridge_step_tcp_sent :
+  forall (pc : proxy_case) (stj : jstate) (fx : fixes) (now : Z) (br : bytes) (st : state) (li : nat)
+         (lc : listen_cfg) (src : bytes) (sport : Z) (data : bytes) (jin : jmsg) (m : message) (rest : bytes)
+         (p : pstate) (st' : state) (outs : list output) (closed : list nat)
+         (v1 v2 : via_param) (vrest : list via_param) (ip : bytes),
+  nth_opt (c_listens (pc_cfg pc)) li = Some lc -> nth_p (st_proxies st) li = Some p ->
+  j_read data = Some jin -> parse_message data = Ok (m, rest) ->
+  via_domain m ->
+  flat_view (via_hdrs m) = v1 :: v2 :: vrest ->
+  to_lower (v_transport v2) = s2b "tcp" ->
+  get_ip (pc_cfg pc) (hop_host v2) = Some ip ->
+  fx_udp_via_listener fx = true -> tcp_slot_ok p ->
+  proxy_step fx (pc_cfg pc) now br st (EvUdp li src sport data) = Ok (st', outs) ->
+  filter C06.is_msg outs <> [] ->
+  judge_C02_event pc stj (EvUdp li src sport data)
+    (map B13.labelled (filter (visible (pc_udp_endpoints pc)) outs)) closed = O.
+Proof. first [ exact C02_bridge.C02_judge_bridge_step_tcp_sent | intros; eapply C02_bridge.C02_judge_bridge_step_tcp_sent; eassumption ]. Qed.
+Theorem C02_judge_bridge_step_tcp_fresh :
+  forall (pc : proxy_case) (stj : jstate) (fx : fixes) (now : Z) (br : bytes) (st : state) (li : nat)
+         (lc : listen_cfg) (src : bytes) (sport : Z) (data : bytes) (jin : jmsg) (m : message) (rest : bytes)
+         (p : pstate) (st' : state) (outs : list output) (closed : list nat)
+         (v1 v2 : via_param) (vrest : list via_param) (ip : bytes),
+  tcp_agree pc stj st ip (hop_port v2) ->
+  nth_opt (c_listens (pc_cfg pc)) li = Some lc -> nth_p (st_proxies st) li = Some p ->
+  j_read data = Some jin -> parse_message data = Ok (m, rest) ->
+  via_domain m ->
+  flat_view (via_hdrs m) = v1 :: v2 :: vrest ->
+  to_lower (v_transport v2) = s2b "tcp" ->
+  get_ip (pc_cfg pc) (hop_host v2) = Some ip ->
+  fx_udp_via_listener fx = true -> tcp_fresh ip (hop_port v2) p ->
+  proxy_step fx (pc_cfg pc) now br st (EvUdp li src sport data) = Ok (st', outs) ->
+  judge_C02_event pc stj (EvUdp li src sport data)
+    (map B13.labelled (filter (visible (pc_udp_endpoints pc)) outs)) closed = O.
+Proof. first [ exact C02_bridge.C02_judge_bridge_step_tcp_fresh | intros; eapply C02_bridge.C02_judge_bridge_step_tcp_fresh; eassumption ]. Qed.
+Theorem C02_response_general : forall e from m x, is_request m = false ->
+  match top_view (pop_view (via_hdrs m)) with
+  | Some v2 =>
+      exists m4 pins',
+        handle_message e from m x =
+          send_message e (hop_host v2) (hop_port v2) (v_transport v2) m4
+            {| x_learned := x_learned x; x_p := with_pins (x_p x) pins'; x_conns := x_conns x;
+               x_world := x_world x; x_outs := x_outs x |} /\
+        m_start m4 = m_start m /\ m_body m4 = m_body m /\ via_hdrs m4 = pop_view (via_hdrs m)
+  | None => fst (handle_message e from m x) = x
+  end.
+Proof. first [ exact C02.C02_response_general | intros; eapply C02.C02_response_general; eassumption ]. Qed.
+Theorem C02_response_hop : forall e from m x v1 v2 rest1 t,
+  is_response m = true ->
+  (via_hdrs m = Some (v1 :: v2 :: rest1) :: t          (* comma list in the first Via header *)
+   \/ via_hdrs m = Some [v1] :: Some (v2 :: rest1) :: t)  (* repeated header lines *) ->
+  exists m4 pins',
+    handle_message e from m x =
+      send_message e (hop_host v2) (hop_port v2) (v_transport v2) m4
+        {| x_learned := x_learned x; x_p := with_pins (x_p x) pins'; x_conns := x_conns x;
+           x_world := x_world x; x_outs := x_outs x |} /\
+    m_start m4 = m_start m /\ m_body m4 = m_body m /\
+    via_hdrs m4 = Some (v2 :: rest1) :: t /\
+    snd (decode_all_vias (m_headers m)) = v1 :: snd (decode_all_vias (m_headers m4)).
+Proof. first [ exact C02.C02_response_hop | intros; eapply C02.C02_response_hop; eassumption ]. Qed.
+Theorem C02_single_via_dropped : forall e from m x,
+  is_response m = true ->
+  (via_hdrs m = [] \/ (exists l, via_hdrs m = [Some l] /\ (List.length l <= 1)%nat)) ->
+  fst (handle_message e from m x) = x.
+Proof. first [ exact C02.C02_single_via_dropped | intros; eapply C02.C02_single_via_dropped; eassumption ]. Qed.
+Theorem C02_undecodable_dropped : forall e from m x t,
+  is_response m = true ->
+  (via_hdrs m = None :: t                                  (* first Via header does not decode *)
+   \/ (exists l, via_hdrs m = Some l :: None :: t /\ (List.length l <= 1)%nat)  (* the next one does not *)
+   \/ (exists l, via_hdrs m = Some l :: Some [] :: t /\ (List.length l <= 1)%nat)) ->
+  fst (handle_message e from m x) = x.
+Proof. first [ exact C02.C02_undecodable_dropped | intros; eapply C02.C02_undecodable_dropped; eassumption ]. Qed.
+Theorem C02_dest_unsupported : forall e host port tr m x,
+  supported_proto (to_lower tr) = false ->
+  x_outs (fst (send_message e host port tr m x)) = x_outs x.
+Proof. first [ exact C02.C02_dest_unsupported | intros; eapply C02.C02_dest_unsupported; eassumption ]. Qed.
+Theorem C02_dest_udp : forall e host port tr m x ip,
+  to_lower tr = s2b "udp" -> get_ip (e_cfg e) host = Some ip -> resolvable ip port = true ->
+  udp_slot_ok ip port (x_p x) -> fits_datagram (write_message (sent_msg m)) = true ->
+  x_outs (fst (send_message e host port tr m x)) = x_outs x ++ [(DUdp ip port, write_message (sent_msg m))].
+Proof. first [ exact C02.C02_dest_udp | intros; eapply C02.C02_dest_udp; eassumption ]. Qed.
+Theorem C02_dest_tcp : forall e host port tr m x,
+  fx_udp_via_listener (e_fx e) = true -> to_lower tr = s2b "tcp" -> tcp_slot_ok (x_p x) ->
+  exists outs, x_outs (fst (send_message e host port tr m x)) = x_outs x ++ outs /\
+               tcp_shape (write_message (sent_msg m)) outs.
+Proof. first [ exact C02.C02_dest_tcp | intros; eapply C02.C02_dest_tcp; eassumption ]. Qed.
+Theorem C02_tcp_slot_reachable : forall fx c st,
+  fx_udp_via_listener fx = true -> reachable fx c st -> Forall tcp_slot_ok (st_proxies st).
+Proof. first [ exact C02.C02_tcp_slot_reachable | intros; eapply C02.C02_tcp_slot_reachable; eassumption ]. Qed.
+Theorem C02_independent_of_pins : forall e from m x pins' rr' gen' l',
+  is_response m = true -> fx_udp_via_listener (e_fx e) = true -> udp_known (x_p x) ->
+  let y := {| x_learned := l'; x_p := graft pins' rr' gen' (x_p x); x_conns := x_conns x;
+              x_world := x_world x; x_outs := x_outs x |} in
+  x_outs (fst (handle_message e from m y)) = x_outs (fst (handle_message e from m x)) /\
+  x_conns (fst (handle_message e from m y)) = x_conns (fst (handle_message e from m x)) /\
+  x_world (fst (handle_message e from m y)) = x_world (fst (handle_message e from m x)).
+Proof. first [ exact C02.C02_independent_of_pins | intros; eapply C02.C02_independent_of_pins; eassumption ]. Qed.
+Theorem C02_roundtrip_return : forall e from r x br t0 src sport v rest t,
+  is_response r = true -> (int_min <= sport <= int_max)%Z ->
+  via_hdrs r = Some [own_via br t0] :: Some (stamp src sport v :: rest) :: t ->
+  exists m4 pins',
+    handle_message e from r x =
+      send_message e src (if kv_has (s2b "rport") (v_params v) then sport else via_get_port v) (v_transport v) m4
+        {| x_learned := x_learned x; x_p := with_pins (x_p x) pins'; x_conns := x_conns x;
+           x_world := x_world x; x_outs := x_outs x |} /\
+    via_hdrs m4 = Some (stamp src sport v :: rest) :: t.
+Proof. first [ exact C02.C02_roundtrip_return | intros; eapply C02.C02_roundtrip_return; eassumption ]. Qed.
+Theorem C02_roundtrip : forall e src sport from tcp q x x' v rest t,
+  is_request q = true -> via_hdrs q = Some (v :: rest) :: t -> (int_min <= sport <= int_max)%Z ->
+  process_message e src sport from true tcp q x = Ok x' ->
+  exists outs, x_outs x' = x_outs x ++ outs /\
+    Forall (fun o =>
+      match fst o with
+      | DDial _ _ _ => snd o = []
+      | _ => exists q', snd o = write_message q' /\
+          (via_hdrs q' = Some (stamp src sport v :: rest) :: t
+           \/ exists t0, via_hdrs q' = Some [own_via (e_branch e) t0] :: Some (stamp src sport v :: rest) :: t /\
+                forall e2 from2 r y, is_response r = true -> via_hdrs r = via_hdrs q' ->
+                  exists m4 pins',
+                    handle_message e2 from2 r y =
+                      send_message e2 src (if kv_has (s2b "rport") (v_params v) then sport else via_get_port v)
+                        (v_transport v) m4
+                        {| x_learned := x_learned y; x_p := with_pins (x_p y) pins'; x_conns := x_conns y;
+                           x_world := x_world y; x_outs := x_outs y |} /\
+                    via_hdrs m4 = Some (stamp src sport v :: rest) :: t)
+      end) outs.
+Proof. first [ exact C02.C02_roundtrip | intros; eapply C02.C02_roundtrip; eassumption ]. Qed.
+Theorem C02_process_response : forall e peer port from rs tcp m0 x x',
+  is_response m0 = true ->
+  process_message e peer port from rs tcp m0 x = Ok x' ->
+  match top_view (pop_view (via_hdrs m0)) with
+  | Some v2 =>
+      exists m4 pins',
+        x' = fst (send_message e (hop_host v2) (hop_port v2) (v_transport v2) m4
+                   {| x_learned := x_learned x; x_p := with_pins (x_p x) pins'; x_conns := x_conns x;
+                      x_world := x_world x; x_outs := x_outs x |}) /\
+        m_start m4 = m_start m0 /\ m_body m4 = m_body m0 /\ via_hdrs m4 = pop_view (via_hdrs m0)
+  | None => x_outs x' = x_outs x /\ x_conns x' = x_conns x /\ x_world x' = x_world x /\ x_learned x' = x_learned x
+  end.
+Proof. first [ exact C02.C02_process_response | intros; eapply C02.C02_process_response; eassumption ]. Qed.
+End P_C02.
+
+(* ------------------------------------------------------------------ C03 *)
+From Model Require Import Bytes Wire Uri Hdr Message Msg StaticRoute RoundRobin Pins Proxy RunProxy SpecC14 SpecProxy SpecProxy2.
+From Model.proofs Require C02 C13_bridge C06 C13 C03 C03_bridge C03_bridge_tcp.
+Section P_C03.
+Import C02 C13_bridge C06 C13 C03 C03_bridge C03_bridge_tcp.
+Theorem C03_choose_agree_gen : forall c lc tcp from data jin m rest q,
+  t_addr from = lc_addr lc -> t_port from = listener_port lc tcp ->
+  j_read data = Some jin -> parse_message data = Ok (m, rest) -> j_request jin = Some q ->
+  route_domain_in (RS m) -> to_domain m -> ruri_domain jin -> routes_ok c ->
+  is_request m = true /\ hop_rel c (j_choose c lc tcp q) (effective_hop c from m).
+Proof. first [ exact C03_bridge_tcp.choose_agree_gen | intros; eapply C03_bridge_tcp.choose_agree_gen; eassumption ]. Qed.
+Theorem C03_judge_bridge_tcp_msg :
+  forall pc stj cid li lc cn data closed jin m rest e x x' l pre,
+  nth_opt (c_listens (pc_cfg pc)) li = Some lc -> e_cfg e = pc_cfg pc -> e_lc e = lc ->
+  find (fun y => Nat.eqb (fst y) cid) (js_conns stj) = Some (cid, (li, cn_peer cn, cn_peer_port cn)) ->
+  cn_from cn = {| t_kind := KTcpListen; t_addr := lc_addr lc; t_port := lc_tcp lc |} ->
+  j_read data = Some jin -> parse_message data = Ok (m, rest) ->
+  route_domain_in (RS m) -> to_domain m -> ruri_domain jin ->
+  hosts_ok (pc_cfg pc) -> routes_ok (pc_cfg pc) -> (0 < lc_udp lc \/ 0 < lc_tcp lc)%Z ->
+  fx_udp_via_listener (e_fx e) = true -> fx_stale_pin (e_fx e) = true ->
+  nth_opt (js_backends stj) li = Some l -> pool_agree l (x_p x) ->
+  Forall (backend_ok (pc_udp_endpoints pc)) l ->
+  (forall ip port, C02.udp_slot_ok ip port (x_p x)) -> C02.tcp_slot_ok (x_p x) ->
+  fits_datagram (write_message (would_send_c e (Some (cn_id cn)) (cn_peer cn) (cn_peer_port cn) (cn_from cn)
+                                  (cn_received_support cn) m x)) = true ->
+  process_message e (cn_peer cn) (cn_peer_port cn) (cn_from cn) (cn_received_support cn) (Some (cn_id cn)) m x = Ok x' ->
+  x_outs x' = x_outs x ++ pre ->
+  (forall q ip port, j_request jin = Some q -> j_choose (pc_cfg pc) lc true q = HHop (JTcp ip port) ->
+     msg_count pre = 0%nat -> dest_ok pc stj (JTcp ip port) [] = true) ->
+  judge_C03_event pc stj (EvTcpData cid data)
+    (map labelled (filter (visible (pc_udp_endpoints pc)) pre)) closed = 0%nat.
+Proof. first [ exact C03_bridge_tcp.C03_judge_bridge_tcp_msg | intros; eapply C03_bridge_tcp.C03_judge_bridge_tcp_msg; eassumption ]. Qed.
+Theorem C03_judge_bridge_tcp_step :
+  forall pc stj fx now br st st' outs cid li lc cn p data closed jin m rest,
+  nth_opt (c_listens (pc_cfg pc)) li = Some lc ->
+  find (fun y => Nat.eqb (cn_id y) cid) (st_conns st) = Some cn ->
+  find (fun y => Nat.eqb (fst y) cid) (js_conns stj) = Some (cid, (li, cn_peer cn, cn_peer_port cn)) ->
+  cn_li cn = li -> cn_open cn = true ->
+  cn_from cn = {| t_kind := KTcpListen; t_addr := lc_addr lc; t_port := lc_tcp lc |} ->
+  j_read data = Some jin -> parse_message data = Ok (m, rest) -> trim_left rest = [] ->
+  route_domain_in (RS m) -> to_domain m -> ruri_domain jin ->
+  hosts_ok (pc_cfg pc) -> routes_ok (pc_cfg pc) -> (0 < lc_udp lc \/ 0 < lc_tcp lc)%Z ->
+  fx_udp_via_listener fx = true -> fx_stale_pin fx = true ->
+  pools_agree stj st -> nth_p (st_proxies st) li = Some p ->
+  (forall l, nth_opt (js_backends stj) li = Some l -> Forall (backend_ok (pc_udp_endpoints pc)) l) ->
+  (forall ip port, C02.udp_slot_ok ip port p) -> C02.tcp_slot_ok p ->
+  fits_datagram (write_message (step_would_send_tcp fx (pc_cfg pc) now br st lc cn p m)) = true ->
+  proxy_step fx (pc_cfg pc) now br st (EvTcpData cid data) = Ok (st', outs) ->
+  (forall q ip port, j_request jin = Some q -> j_choose (pc_cfg pc) lc true q = HHop (JTcp ip port) ->
+     msg_count outs = 0%nat -> dest_ok pc stj (JTcp ip port) [] = true) ->
+  judge_C03_event pc stj (EvTcpData cid data)
+    (map labelled (filter (visible (pc_udp_endpoints pc)) outs)) closed = 0%nat.
+Proof. first [ exact C03_bridge_tcp.C03_judge_bridge_tcp_step | intros; eapply C03_bridge_tcp.C03_judge_bridge_tcp_step; eassumption ]. Qed.
+Theorem C03_judge_bridge_tcp_step_no_tcp :
+  forall pc stj fx now br st st' outs cid li lc cn p data closed jin m rest,
+  nth_opt (c_listens (pc_cfg pc)) li = Some lc ->
+  find (fun y => Nat.eqb (cn_id y) cid) (st_conns st) = Some cn ->
+  find (fun y => Nat.eqb (fst y) cid) (js_conns stj) = Some (cid, (li, cn_peer cn, cn_peer_port cn)) ->
+  cn_li cn = li -> cn_open cn = true ->
+  cn_from cn = {| t_kind := KTcpListen; t_addr := lc_addr lc; t_port := lc_tcp lc |} ->
+  j_read data = Some jin -> parse_message data = Ok (m, rest) -> trim_left rest = [] ->
+  route_domain_in (RS m) -> to_domain m -> ruri_domain jin ->
+  hosts_ok (pc_cfg pc) -> routes_ok (pc_cfg pc) -> (0 < lc_udp lc \/ 0 < lc_tcp lc)%Z ->
+  fx_udp_via_listener fx = true -> fx_stale_pin fx = true ->
+  pools_agree stj st -> nth_p (st_proxies st) li = Some p ->
+  (forall l, nth_opt (js_backends stj) li = Some l -> Forall (backend_ok (pc_udp_endpoints pc)) l) ->
+  (forall ip port, C02.udp_slot_ok ip port p) -> C02.tcp_slot_ok p ->
+  fits_datagram (write_message (step_would_send_tcp fx (pc_cfg pc) now br st lc cn p m)) = true ->
+  proxy_step fx (pc_cfg pc) now br st (EvTcpData cid data) = Ok (st', outs) ->
+  (forall q ip port, j_request jin = Some q -> j_choose (pc_cfg pc) lc true q <> HHop (JTcp ip port)) ->
+  judge_C03_event pc stj (EvTcpData cid data)
+    (map labelled (filter (visible (pc_udp_endpoints pc)) outs)) closed = 0%nat.
+Proof. first [ exact C03_bridge_tcp.C03_judge_bridge_tcp_step_no_tcp | intros; eapply C03_bridge_tcp.C03_judge_bridge_tcp_step_no_tcp; eassumption ]. Qed.
+Theorem C03_choose_agree : forall c lc data jin m rest q,
+  j_read data = Some jin -> parse_message data = Ok (m, rest) -> j_request jin = Some q ->
+  route_domain_in (RS m) -> to_domain m -> ruri_domain jin -> routes_ok c ->
+  is_request m = true /\ hop_rel c (j_choose c lc false q) (effective_hop c (udp_transport lc) m).
+Proof. first [ exact C03_bridge.choose_agree | intros; eapply C03_bridge.choose_agree; eassumption ]. Qed.
+Theorem C03_judge_bridge_udp :
+  forall pc stj li lc src sport data closed jin m rest e rs x x' l,
+  nth_opt (c_listens (pc_cfg pc)) li = Some lc -> e_cfg e = pc_cfg pc -> e_lc e = lc ->
+  j_read data = Some jin -> parse_message data = Ok (m, rest) ->
+  route_domain_in (RS m) -> to_domain m -> ruri_domain jin ->
+  hosts_ok (pc_cfg pc) -> routes_ok (pc_cfg pc) -> (0 < lc_udp lc)%Z ->
+  fx_udp_via_listener (e_fx e) = true -> fx_stale_pin (e_fx e) = true ->
+  nth_opt (js_backends stj) li = Some l -> pool_agree l (x_p x) ->
+  Forall (backend_ok (pc_udp_endpoints pc)) l ->
+  (forall ip port, C02.udp_slot_ok ip port (x_p x)) -> C02.tcp_slot_ok (x_p x) ->
+  fits_datagram (write_message (would_send e src sport (udp_transport lc) rs m x)) = true ->
+  process_message e src sport (udp_transport lc) rs None m x = Ok x' ->
+  exists pre, x_outs x' = x_outs x ++ pre /\ (msg_count pre <= 1)%nat /\
+    ((forall q ip port, j_request jin = Some q -> j_choose (pc_cfg pc) lc false q = HHop (JTcp ip port) ->
+        msg_count pre = 0%nat -> dest_ok pc stj (JTcp ip port) [] = true) ->
+     judge_C03_event pc stj (EvUdp li src sport data)
+       (map labelled (filter (visible (pc_udp_endpoints pc)) pre)) closed = 0%nat).
+Proof. first [ exact C03_bridge.C03_judge_bridge_udp | intros; eapply C03_bridge.C03_judge_bridge_udp; eassumption ]. Qed.
+Theorem C03_judge_bridge_step :
+  forall pc stj fx now br st st' outs li lc p src sport data closed jin m rest,
+  nth_opt (c_listens (pc_cfg pc)) li = Some lc ->
+  j_read data = Some jin -> parse_message data = Ok (m, rest) ->
+  route_domain_in (RS m) -> to_domain m -> ruri_domain jin ->
+  hosts_ok (pc_cfg pc) -> routes_ok (pc_cfg pc) -> (0 < lc_udp lc)%Z ->
+  fx_udp_via_listener fx = true -> fx_stale_pin fx = true ->
+  agree stj st -> nth_p (st_proxies st) li = Some p ->
+  (forall l, nth_opt (js_backends stj) li = Some l -> Forall (backend_ok (pc_udp_endpoints pc)) l) ->
+  (forall ip port, C02.udp_slot_ok ip port p) -> C02.tcp_slot_ok p ->
+  fits_datagram (write_message (step_would_send fx (pc_cfg pc) now br st li lc p src sport m)) = true ->
+  proxy_step fx (pc_cfg pc) now br st (EvUdp li src sport data) = Ok (st', outs) ->
+  (forall q ip port, j_request jin = Some q -> j_choose (pc_cfg pc) lc false q = HHop (JTcp ip port) ->
+     msg_count outs = 0%nat -> dest_ok pc stj (JTcp ip port) [] = true) ->
+  judge_C03_event pc stj (EvUdp li src sport data)
+    (map labelled (filter (visible (pc_udp_endpoints pc)) outs)) closed = 0%nat.
+Proof. first [ exact C03_bridge.C03_judge_bridge_step | intros; eapply C03_bridge.C03_judge_bridge_step; eassumption ]. Qed.
+Theorem C03_judge_bridge_step_no_tcp :
+  forall pc stj fx now br st st' outs li lc p src sport data closed jin m rest,
+  nth_opt (c_listens (pc_cfg pc)) li = Some lc ->
+  j_read data = Some jin -> parse_message data = Ok (m, rest) ->
+  route_domain_in (RS m) -> to_domain m -> ruri_domain jin ->
+  hosts_ok (pc_cfg pc) -> routes_ok (pc_cfg pc) -> (0 < lc_udp lc)%Z ->
+  fx_udp_via_listener fx = true -> fx_stale_pin fx = true ->
+  agree stj st -> nth_p (st_proxies st) li = Some p ->
+  (forall l, nth_opt (js_backends stj) li = Some l -> Forall (backend_ok (pc_udp_endpoints pc)) l) ->
+  (forall ip port, C02.udp_slot_ok ip port p) -> C02.tcp_slot_ok p ->
+  fits_datagram (write_message (step_would_send fx (pc_cfg pc) now br st li lc p src sport m)) = true ->
+  proxy_step fx (pc_cfg pc) now br st (EvUdp li src sport data) = Ok (st', outs) ->
+  (forall q ip port, j_request jin = Some q -> j_choose (pc_cfg pc) lc false q <> HHop (JTcp ip port)) ->
+  judge_C03_event pc stj (EvUdp li src sport data)
+    (map labelled (filter (visible (pc_udp_endpoints pc)) outs)) closed = 0%nat.
+Proof. first [ exact C03_bridge.C03_judge_bridge_step_no_tcp | intros; eapply C03_bridge.C03_judge_bridge_step_no_tcp; eassumption ]. Qed.
+Theorem C03_agree_step_udp : forall pc stj fx now br st st' outs li src sport data,
+  agree stj st ->
+  proxy_step fx (pc_cfg pc) now br st (EvUdp li src sport data) = Ok (st', outs) ->
+  dials_readable outs ->
+  agree (js_step_c stj (EvUdp li src sport data) (map labelled (filter (visible (pc_udp_endpoints pc)) outs)) []) st'.
+Proof. first [ exact C03_bridge.agree_step_udp | intros; eapply C03_bridge.agree_step_udp; eassumption ]. Qed.
+Theorem C03_at_most_one : forall e peer peer_port from rs tcp m x x',
+  process_message e peer peer_port from rs tcp m x = Ok x' ->
+  exists extra, x_outs x' = x_outs x ++ extra /\ (msg_count extra <= 1)%nat.
+Proof. first [ exact C03.C03_at_most_one | intros; eapply C03.C03_at_most_one; eassumption ]. Qed.
+Theorem C03_at_most_one_udp : forall fx c now branch st li src sport data st' outs,
+  proxy_step fx c now branch st (EvUdp li src sport data) = Ok (st', outs) -> (msg_count outs <= 1)%nat.
+Proof. first [ exact C03.C03_at_most_one_udp | intros; eapply C03.C03_at_most_one_udp; eassumption ]. Qed.
+Theorem C03_at_most_one_tcp : forall fx c now branch st cid data st' outs,
+  proxy_step fx c now branch st (EvTcpData cid data) = Ok (st', outs) ->
+  exists chunks, outs = List.concat chunks /\
+                 (List.length chunks <= List.length (parse_stream (S (List.length data)) data))%nat /\
+                 Forall (fun ch => (msg_count ch <= 1)%nat) chunks.
+Proof. first [ exact C03.C03_at_most_one_tcp | intros; eapply C03.C03_at_most_one_tcp; eassumption ]. Qed.
+Theorem C03_choice : forall e peer peer_port from rs tcp m0 x x',
+  is_request m0 = true ->
+  process_message e peer peer_port from rs tcp m0 x = Ok x' ->
+  exists m1 p1,
+    let x1 := {| x_learned := learned_after peer from m0 x; x_p := p1; x_conns := x_conns x;
+                 x_world := x_world x; x_outs := x_outs x |} in
+    same_rr (x_p x) p1 /\
+    (forall nm, disjoint_names nm (s2b "Via") -> disjoint_names nm (s2b "CSeq") ->
+                disjoint_names nm (s2b "Route") -> disjoint_names nm (s2b "To") -> frame nm m0 m1) /\
+    via_rel m0 m1 /\
+    route_view m1 = skipn (route_consumed (e_cfg e) from (c_keep_next_hop (e_cfg e)) (route_view m0)) (route_view m0) /\
+    match effective_hop (e_cfg e) from m0 with
+    | HopAddr host port transport =>
+        x' = fst (send_message e host port transport (decorate e (x_learned x1) host m1) x1)
+    | HopBackend => x' = fst (send_to_backend e m1 x1)
+    | HopNone => x' = x1
+    | HopOut => False
+    end.
+Proof. first [ exact C03.C03_choice | intros; eapply C03.C03_choice; eassumption ]. Qed.
+Theorem C03_choice_outputs : forall e peer peer_port from rs tcp m0 x x',
+  is_request m0 = true ->
+  process_message e peer peer_port from rs tcp m0 x = Ok x' ->
+  exists extra, x_outs x' = x_outs x ++ extra /\ (msg_count extra <= 1)%nat /\
+    match effective_hop (e_cfg e) from m0 with
+    | HopAddr host port transport =>
+        (* only through the client transport for (transport, host, port); nothing for a
+           transport other than udp / tcp *)
+        supported_proto (to_lower transport) = false -> extra = []
+    | HopBackend =>
+        extra = [] \/ exists a d b, extra = [(d, b)] /\ backend_dest a = Some d /\
+                                    (In a (rr_backends (ps_rr (x_p x))) \/ exists g, backend_alive a g (x_p x) = true)
+    | HopNone => extra = []
+    | HopOut => False
+    end.
+Proof. first [ exact C03.C03_choice_outputs | intros; eapply C03.C03_choice_outputs; eassumption ]. Qed.
+Theorem C03_non_sip_route : forall c from m rp rest s,
+  remaining_routes c from m = EDec rp :: rest -> na_addr (r_addr rp) = AAbs s ->
+  choose_hop c from m = HopOut /\ effective_hop c from m = lower_choice c from m /\
+  forall keep, route_consumed c from keep (route_view m) =
+               ((match route_view m with EDec e1 :: _ => if designates c from e1 then 1 else 0 | _ => 0 end) +
+                (if keep then 0 else 1))%nat.
+Proof. first [ exact C03.C03_non_sip_route | intros; eapply C03.C03_non_sip_route; eassumption ]. Qed.
+Theorem C03_backend_member : forall e m x,
+  (forall a g, pinned_backend e (x_p x) m <> Some (BObj a g)) ->
+  exists extra, x_outs (fst (send_to_backend e m x)) = x_outs x ++ extra /\
+    (extra = [] \/ exists a d b, extra = [(d, b)] /\ In a (rr_backends (ps_rr (x_p x))) /\ backend_dest a = Some d) /\
+    (rr_backends (ps_rr (x_p x)) = [] -> extra = []).
+Proof. first [ exact C03.C03_backend_member | intros; eapply C03.C03_backend_member; eassumption ]. Qed.
+Theorem C03_backend_member_event : forall e peer peer_port from rs tcp m0 x x',
+  is_request m0 = true ->
+  process_message e peer peer_port from rs tcp m0 x = Ok x' ->
+  effective_hop (e_cfg e) from m0 = HopBackend ->
+  exists m1 p1, same_rr (x_p x) p1 /\
+    ((forall a g, pinned_backend e p1 m1 <> Some (BObj a g)) ->
+     exists extra, x_outs x' = x_outs x ++ extra /\
+       (extra = [] \/ exists a d b, extra = [(d, b)] /\ In a (rr_backends (ps_rr (x_p x))) /\ backend_dest a = Some d) /\
+       (rr_backends (ps_rr (x_p x)) = [] -> extra = [])).
+Proof. first [ exact C03.C03_backend_member_event | intros; eapply C03.C03_backend_member_event; eassumption ]. Qed.
+Theorem C03_unsupported_transport_dropped : forall e host port transport m x,
+  to_lower transport <> s2b "udp" -> to_lower transport <> s2b "tcp" ->
+  x_outs (fst (send_message e host port transport m x)) = x_outs x.
+Proof. first [ exact C03.C03_unsupported_transport_dropped | intros; eapply C03.C03_unsupported_transport_dropped; eassumption ]. Qed.
+Theorem C03_unsupported_transport_event : forall e peer peer_port from rs tcp m0 x x' host port transport,
+  is_request m0 = true ->
+  process_message e peer peer_port from rs tcp m0 x = Ok x' ->
+  effective_hop (e_cfg e) from m0 = HopAddr host port transport ->
+  to_lower transport <> s2b "udp" -> to_lower transport <> s2b "tcp" ->
+  x_outs x' = x_outs x.
+Proof. first [ exact C03.C03_unsupported_transport_event | intros; eapply C03.C03_unsupported_transport_event; eassumption ]. Qed.
+Theorem C03_b1_legacy_refuted :
+  effective_hop cfgA ex_from (msg_of b1_req) = HopAddr (s2b "10.0.0.5") 5070 (s2b "tcp") /\
+  dests (run1 b1_fixes cfgA [(s2b "10.0.0.5", 5070)] b1_req) = [DUdp (s2b "10.0.0.5") 5070] /\
+  dests (run1 all_fixed cfgA [(s2b "10.0.0.5", 5070)] b1_req) = [DDial (s2b "10.0.0.5") 5070 0; DConn 0].
+Proof. first [ exact C03.C03_b1_legacy_refuted | intros; eapply C03.C03_b1_legacy_refuted; eassumption ]. Qed.
+End P_C03.
+
+(* ------------------------------------------------------------------ C06 *)
+From Model Require Import Bytes Wire Uri Hdr Message Msg StaticRoute RoundRobin Pins Proxy RunProxy SpecC14 SpecProxy SpecProxy2.
+From Model.proofs Require C07_bridge C13_bridge C06 C13 C03 C06_bridge C06_bridge_tcp.
+Section P_C06.
+Import C07_bridge C13_bridge C06 C13 C03 C06_bridge C06_bridge_tcp.
+Theorem C06_judge_bridge_tcp_msg :
+  forall pc stj cid li lc cn data closed jin m rest e x x' pre,
+  nth_opt (c_listens (pc_cfg pc)) li = Some lc -> e_cfg e = pc_cfg pc -> e_lc e = lc ->
+  e_branch e = branch_of (js_event stj) ->
+  find (fun y => Nat.eqb (fst y) cid) (js_conns stj) = Some (cid, (li, cn_peer cn, cn_peer_port cn)) ->
+  cn_from cn = {| t_kind := KTcpListen; t_addr := lc_addr lc; t_port := lc_tcp lc |} ->
+  j_read data = Some jin -> parse_message data = Ok (m, rest) ->
+  agree_learned (pc_cfg pc) (js_learned stj) (x_learned x) ->
+  amem (cn_peer cn) (ps_backends (x_p x)) = false ->
+  B7.via_domain m -> B13.route_domain_in (B13.RS m) -> to_domain m -> ruri_domain jin ->
+  B7.src_ok (cn_peer cn) -> B7.branch_ok (e_branch e) ->
+  safe1 (lc_addr lc) = true -> (0 <= lc_udp lc <= 65535)%Z -> (1 <= lc_tcp lc <= 65535)%Z ->
+  lrn_ok (x_learned x) ->
+  process_message e (cn_peer cn) (cn_peer_port cn) (cn_from cn) (cn_received_support cn) (Some (cn_id cn)) m x
+    = Ok x' ->
+  x_outs x' = x_outs x ++ pre ->
+  forall vis, judge_C06_event pc stj (EvTcpData cid data) (map B13.labelled (filter vis pre)) closed = 0%nat.
+Proof. first [ exact C06_bridge_tcp.C06_judge_bridge_tcp_msg | intros; eapply C06_bridge_tcp.C06_judge_bridge_tcp_msg; eassumption ]. Qed.
+Theorem C06_judge_bridge_tcp_step :
+  forall pc stj fx now br st st' outs cid li lc cn data closed jin m rest,
+  nth_opt (c_listens (pc_cfg pc)) li = Some lc ->
+  find (fun y => Nat.eqb (cn_id y) cid) (st_conns st) = Some cn ->
+  find (fun y => Nat.eqb (fst y) cid) (js_conns stj) = Some (cid, (li, cn_peer cn, cn_peer_port cn)) ->
+  cn_li cn = li ->
+  cn_from cn = {| t_kind := KTcpListen; t_addr := lc_addr lc; t_port := lc_tcp lc |} ->
+  j_read data = Some jin -> parse_message data = Ok (m, rest) -> trim_left rest = [] ->
+  br = branch_of (js_event stj) ->
+  agree_learned (pc_cfg pc) (js_learned stj) (st_learned st) ->
+  (forall p, nth_p (st_proxies st) li = Some p -> amem (cn_peer cn) (ps_backends p) = false) ->
+  B7.via_domain m -> B13.route_domain_in (B13.RS m) -> to_domain m -> ruri_domain jin ->
+  B7.src_ok (cn_peer cn) -> B7.branch_ok br ->
+  safe1 (lc_addr lc) = true -> (0 <= lc_udp lc <= 65535)%Z -> (1 <= lc_tcp lc <= 65535)%Z ->
+  lrn_ok (st_learned st) ->
+  proxy_step fx (pc_cfg pc) now br st (EvTcpData cid data) = Ok (st', outs) ->
+  forall vis, judge_C06_event pc stj (EvTcpData cid data) (map B13.labelled (filter vis outs)) closed = 0%nat.
+Proof. first [ exact C06_bridge_tcp.C06_judge_bridge_tcp_step | intros; eapply C06_bridge_tcp.C06_judge_bridge_tcp_step; eassumption ]. Qed.
+Theorem C06_agree_tcp_step :
+  forall pc stj fx now br st st' outs cid li lc cn data jin m rest outs' closed,
+  nth_opt (c_listens (pc_cfg pc)) li = Some lc ->
+  find (fun y => Nat.eqb (cn_id y) cid) (st_conns st) = Some cn ->
+  find (fun y => Nat.eqb (fst y) cid) (js_conns stj) = Some (cid, (li, cn_peer cn, cn_peer_port cn)) ->
+  cn_li cn = li -> cn_open cn = true ->
+  cn_from cn = {| t_kind := KTcpListen; t_addr := lc_addr lc; t_port := lc_tcp lc |} ->
+  j_read data = Some jin -> parse_message data = Ok (m, rest) -> trim_left rest = [] ->
+  agree_learned (pc_cfg pc) (js_learned stj) (st_learned st) ->
+  (exists p, nth_p (st_proxies st) li = Some p /\ amem (cn_peer cn) (ps_backends p) = false) ->
+  B7.via_domain m ->
+  proxy_step fx (pc_cfg pc) now br st (EvTcpData cid data) = Ok (st', outs) ->
+  agree_learned (pc_cfg pc) (js_learned (js_step_c stj (EvTcpData cid data) outs' closed)) (st_learned st').
+Proof. first [ exact C06_bridge_tcp.C06_agree_tcp_step | intros; eapply C06_bridge_tcp.C06_agree_tcp_step; eassumption ]. Qed.
+Theorem C06_lrn_ok_tcp_step :
+  forall fx c now br st st' outs cid lc cn data,
+  find (fun y => Nat.eqb (cn_id y) cid) (st_conns st) = Some cn ->
+  cn_from cn = {| t_kind := KTcpListen; t_addr := lc_addr lc; t_port := lc_tcp lc |} ->
+  safe1 (lc_addr lc) = true -> (1 <= lc_tcp lc <= 65535)%Z ->
+  lrn_ok (st_learned st) ->
+  proxy_step fx c now br st (EvTcpData cid data) = Ok (st', outs) -> lrn_ok (st_learned st').
+Proof. first [ exact C06_bridge_tcp.C06_lrn_ok_tcp_step | intros; eapply C06_bridge_tcp.C06_lrn_ok_tcp_step; eassumption ]. Qed.
+Theorem C06_judge_bridge_step :
+  forall pc stj fx now br st st' outs li lc src sport data closed jin m rest,
+  nth_opt (c_listens (pc_cfg pc)) li = Some lc ->
+  j_read data = Some jin -> parse_message data = Ok (m, rest) ->
+  br = branch_of (js_event stj) ->
+  agree_learned (pc_cfg pc) (js_learned stj) (st_learned st) ->
+  (forall p, nth_p (st_proxies st) li = Some p -> amem src (ps_backends p) = false) ->
+  B7.via_domain m -> B13.route_domain_in (B13.RS m) -> to_domain m -> ruri_domain jin ->
+  B7.src_ok src -> B7.branch_ok br ->
+  safe1 (lc_addr lc) = true -> (1 <= lc_udp lc <= 65535)%Z -> (0 <= lc_tcp lc <= 65535)%Z ->
+  lrn_ok (st_learned st) ->
+  proxy_step fx (pc_cfg pc) now br st (EvUdp li src sport data) = Ok (st', outs) ->
+  forall vis, judge_C06_event pc stj (EvUdp li src sport data) (map B13.labelled (filter vis outs)) closed = 0%nat.
+Proof. first [ exact C06_bridge.C06_judge_bridge_step | intros; eapply C06_bridge.C06_judge_bridge_step; eassumption ]. Qed.
+Theorem C06_judge_bridge_udp :
+  forall pc stj li lc src sport data closed jin m rest e rs x x' pre,
+  nth_opt (c_listens (pc_cfg pc)) li = Some lc -> e_cfg e = pc_cfg pc -> e_lc e = lc ->
+  e_branch e = branch_of (js_event stj) ->
+  j_read data = Some jin -> parse_message data = Ok (m, rest) ->
+  agree_learned (pc_cfg pc) (js_learned stj) (x_learned x) ->
+  amem src (ps_backends (x_p x)) = false ->
+  B7.via_domain m -> B13.route_domain_in (B13.RS m) -> to_domain m -> ruri_domain jin ->
+  B7.src_ok src -> B7.branch_ok (e_branch e) ->
+  safe1 (lc_addr lc) = true -> (1 <= lc_udp lc <= 65535)%Z -> (0 <= lc_tcp lc <= 65535)%Z ->
+  lrn_ok (x_learned x) ->
+  process_message e src sport (B13.udp_transport lc) rs None m x = Ok x' ->
+  x_outs x' = x_outs x ++ pre ->
+  forall vis, judge_C06_event pc stj (EvUdp li src sport data) (map B13.labelled (filter vis pre)) closed = 0%nat.
+Proof. first [ exact C06_bridge.C06_judge_bridge_udp | intros; eapply C06_bridge.C06_judge_bridge_udp; eassumption ]. Qed.
+Theorem C06_agree_step :
+  forall pc stj fx now br st st' outs li lc src sport data jin m rest outs' closed,
+  nth_opt (c_listens (pc_cfg pc)) li = Some lc ->
+  j_read data = Some jin -> parse_message data = Ok (m, rest) ->
+  agree_learned (pc_cfg pc) (js_learned stj) (st_learned st) ->
+  (exists p, nth_p (st_proxies st) li = Some p /\ amem src (ps_backends p) = false) ->
+  B7.via_domain m ->
+  proxy_step fx (pc_cfg pc) now br st (EvUdp li src sport data) = Ok (st', outs) ->
+  agree_learned (pc_cfg pc) (js_learned (js_step_c stj (EvUdp li src sport data) outs' closed)) (st_learned st').
+Proof. first [ exact C06_bridge.C06_agree_step | intros; eapply C06_bridge.C06_agree_step; eassumption ]. Qed.
+Theorem C06_lrn_ok_step :
+  forall fx c now br st st' outs li lc src sport data,
+  nth_opt (c_listens c) li = Some lc -> safe1 (lc_addr lc) = true -> (1 <= lc_udp lc <= 65535)%Z ->
+  lrn_ok (st_learned st) ->
+  proxy_step fx c now br st (EvUdp li src sport data) = Ok (st', outs) -> lrn_ok (st_learned st').
+Proof. first [ exact C06_bridge.C06_lrn_ok_step | intros; eapply C06_bridge.C06_lrn_ok_step; eassumption ]. Qed.
+Theorem C06_via_pushed : forall e t m,
+  let k := via_pos m in
+  m_headers (px_add_via e t m) = firstn k (m_headers m) ++ pushed_via_header e t :: skipn k (m_headers m) /\
+  m_start (px_add_via e t m) = m_start m /\ m_body (px_add_via e t m) = m_body m /\
+  sel (s2b "Via") (m_headers (px_add_via e t m)) = pushed_via_header e t :: sel (s2b "Via") (m_headers m) /\
+  all_vias (m_headers (px_add_via e t m)) = pushed_via e t :: all_vias (m_headers m) /\
+  (forall nm, same_header (s2b "Via") nm = false -> frame nm m (px_add_via e t m)).
+Proof. first [ exact C06.C06_via_pushed | intros; eapply C06.C06_via_pushed; eassumption ]. Qed.
+Theorem C06_via_position : forall e t m,
+  let k := via_pos m in
+  (k <= List.length (m_headers m))%nat /\
+  nth_error (m_headers (px_add_via e t m)) k = Some (pushed_via_header e t) /\
+  firstn k (m_headers (px_add_via e t m)) = firstn k (m_headers m) /\
+  skipn (S k) (m_headers (px_add_via e t m)) = skipn k (m_headers m) /\
+  sel (s2b "Via") (firstn k (m_headers m)) = [] /\
+  (sel (s2b "Via") (m_headers m) = [] -> k = O) /\
+  (sel (s2b "Via") (m_headers m) <> [] ->
+     exists h r, skipn k (m_headers m) = h :: r /\ same_header (h_name h) (s2b "Via") = true).
+Proof. first [ exact C06.C06_via_position | intros; eapply C06.C06_via_position; eassumption ]. Qed.
+Theorem C06_branch : forall e t, via_get_branch (pushed_via e t) = Some (e_branch e).
+Proof. first [ exact C06.C06_branch | intros; eapply C06.C06_branch; eassumption ]. Qed.
+Theorem C06_rr_policy : forall must t m,
+  if (has_header (s2b "Record-Route") m || must)%bool then
+    let k := find_record_route_pos (m_headers m) in
+    m_headers (px_add_record_route must t m)
+      = firstn k (m_headers m) ++ own_rr_header t :: skipn k (m_headers m) /\
+    m_start (px_add_record_route must t m) = m_start m /\ m_body (px_add_record_route must t m) = m_body m /\
+    sel (s2b "Record-Route") (m_headers (px_add_record_route must t m))
+      = own_rr_header t :: sel (s2b "Record-Route") (m_headers m) /\
+    all_rr (m_headers (px_add_record_route must t m)) = own_record_route t :: all_rr (m_headers m) /\
+    (forall nm, same_header (s2b "Record-Route") nm = false -> frame nm m (px_add_record_route must t m))
+  else px_add_record_route must t m = m.
+Proof. first [ exact C06.C06_rr_policy | intros; eapply C06.C06_rr_policy; eassumption ]. Qed.
+Theorem C06_rr_position : forall must t m,
+  (has_header (s2b "Record-Route") m || must)%bool = true ->
+  let k := find_record_route_pos (m_headers m) in
+  (k <= List.length (m_headers m))%nat /\
+  nth_error (m_headers (px_add_record_route must t m)) k = Some (own_rr_header t) /\
+  firstn k (m_headers (px_add_record_route must t m)) = firstn k (m_headers m) /\
+  skipn (S k) (m_headers (px_add_record_route must t m)) = skipn k (m_headers m) /\
+  sel (s2b "Record-Route") (firstn k (m_headers m)) = [] /\
+  (has_header (s2b "Record-Route") m = true ->
+     exists h r, skipn k (m_headers m) = h :: r /\ same_header (h_name h) (s2b "Record-Route") = true).
+Proof. first [ exact C06.C06_rr_position | intros; eapply C06.C06_rr_position; eassumption ]. Qed.
+Theorem C06_rr_flat : forall must t m,
+  all_rr (m_headers (px_add_record_route must t m)) =
+  if (has_header (s2b "Record-Route") m || must)%bool then own_record_route t :: all_rr (m_headers m)
+  else all_rr (m_headers m).
+Proof. first [ exact C06.C06_rr_flat | intros; eapply C06.C06_rr_flat; eassumption ]. Qed.
+Theorem C06_own_record_route_text : forall t, t_port t <> 0 ->
+  route_print [own_record_route t] = s2b "<sip:" ++ t_addr t ++ ":"%char :: itoa (t_port t) ++ s2b ";lr>".
+Proof. first [ exact C06.own_record_route_text | intros; eapply C06.own_record_route_text; eassumption ]. Qed.
+Theorem C06_decorate_learned : forall e l host t m,
+  alookup host l = Some t ->
+  all_vias (m_headers (decorate e l host m)) = pushed_via e t :: all_vias (m_headers m) /\
+  all_rr (m_headers (decorate e l host m)) =
+    (if (has_header (s2b "Record-Route") m || pa_must_rr (wire_proxy (e_lc e)))%bool
+     then own_record_route t :: all_rr (m_headers m) else all_rr (m_headers m)) /\
+  m_start (decorate e l host m) = m_start m /\ m_body (decorate e l host m) = m_body m /\
+  (forall nm, same_header (s2b "Via") nm = false -> same_header (s2b "Record-Route") nm = false ->
+              frame nm m (decorate e l host m)).
+Proof. first [ exact C06.C06_decorate_learned | intros; eapply C06.C06_decorate_learned; eassumption ]. Qed.
+Theorem C06_not_learned_untouched : forall e l host m, alookup host l = None -> decorate e l host m = m.
+Proof. first [ exact C06.C06_not_learned_untouched | intros; eapply C06.C06_not_learned_untouched; eassumption ]. Qed.
+Theorem C06_backend_decorates : forall e t0 p m,
+  all_vias (m_headers (backend_message e t0 p m)) = pushed_via e t0 :: all_vias (m_headers m) /\
+  all_rr (m_headers (backend_message e t0 p m)) =
+    (if (has_header (s2b "Record-Route") m || pa_must_rr (wire_proxy (e_lc e)))%bool
+     then own_record_route t0 :: all_rr (m_headers m) else all_rr (m_headers m)).
+Proof. first [ exact C06.C06_backend_decorates | intros; eapply C06.C06_backend_decorates; eassumption ]. Qed.
+Theorem C06_branch_of_inj : forall a b, branch_of a = branch_of b -> a = b.
+Proof. first [ exact C06.branch_of_inj | intros; eapply C06.branch_of_inj; eassumption ]. Qed.
+Theorem C06_branch_of_cookie : forall n, has_prefix (s2b "z9hG4bK") (branch_of n) = true.
+Proof. first [ exact C06.branch_of_cookie | intros; eapply C06.branch_of_cookie; eassumption ]. Qed.
+Theorem C06_branches_distinct : forall e0 n, NoDup (map branch_of (seq e0 n)).
+Proof. first [ exact C06.C06_branches_distinct | intros; eapply C06.C06_branches_distinct; eassumption ]. Qed.
+Theorem C06_learn_lookup : forall k ip t l,
+  alookup k (learn ip t l) =
+  if beq k ip
+  then Some (match alookup ip l with
+             | Some old => if same_transport old t then old else t
+             | None => t
+             end)
+  else alookup k l.
+Proof. first [ exact C06.learn_lookup | intros; eapply C06.learn_lookup; eassumption ]. Qed.
+Theorem C06_learning : forall e peer peer_port from rs tcp m0 x x',
+  process_message e peer peer_port from rs tcp m0 x = Ok x' ->
+  x_learned x' =
+  if (is_request m0 && negb (amem peer (ps_backends (x_p x))))%bool
+  then fold_left (fun l h => learn h from l) (peer :: map v_host (all_vias (m_headers m0))) (x_learned x)
+  else x_learned x.
+Proof. first [ exact C06.C06_learning | intros; eapply C06.C06_learning; eassumption ]. Qed.
+Theorem C06_learning_response : forall e peer peer_port from rs tcp m0 x x',
+  is_request m0 = false ->
+  process_message e peer peer_port from rs tcp m0 x = Ok x' -> x_learned x' = x_learned x.
+Proof. first [ exact C06.C06_learning_response | intros; eapply C06.C06_learning_response; eassumption ]. Qed.
+Theorem C06_relayed_request : forall e peer peer_port from rs tcp m0 x x',
+  is_request m0 = true ->
+  process_message e peer peer_port from rs tcp m0 x = Ok x' ->
+  exists m1 extra, x_outs x' = x_outs x ++ extra /\ (msg_count extra <= 1)%nat /\ via_rel m0 m1 /\
+    let rr_of t := if (has_header (s2b "Record-Route") m0 || pa_must_rr (wire_proxy (e_lc e)))%bool
+                   then own_record_route t :: all_rr (m_headers m0) else all_rr (m_headers m0) in
+    forall o, In o extra -> is_msg o = true ->
+      exists mo, snd o = write_message mo /\
+        match effective_hop (e_cfg e) from m0 with
+        | HopAddr host _ _ =>
+            match alookup host (learned_after peer from m0 x) with
+            | Some t => all_vias (m_headers mo) = pushed_via e t :: all_vias (m_headers m1) /\
+                        all_rr (m_headers mo) = rr_of t
+            | None => all_vias (m_headers mo) = all_vias (m_headers m1) /\
+                      all_rr (m_headers mo) = all_rr (m_headers m0)
+            end
+        | HopBackend =>
+            exists t0, first_transport (e_lc e) = Some t0 /\
+                       all_vias (m_headers mo) = pushed_via e t0 :: all_vias (m_headers m1) /\
+                       all_rr (m_headers mo) = rr_of t0
+        | _ => False
+        end.
+Proof. first [ exact C03.C06_relayed_request | intros; eapply C03.C06_relayed_request; eassumption ]. Qed.
+End P_C06.
